@@ -157,101 +157,6 @@ Lemma flag_ready_conns n cid :
   n_conns (flag_ready n cid) = upd_conn (n_conns n) cid (fun c => set_cstate c SReady).
 Proof. reflexivity. Qed.
 
-(* ================================================================================== *)
-(* C06: capabilities exchange gates all traffic                                        *)
-(* ================================================================================== *)
-
-(* C06: a CONNECTED connection drops every message that is not the expected CER / CEA *)
-Theorem C06_gate_connected n cid c m :
-  get_conn n cid = Some c -> c_state c = SConnected ->
-  (m_cmd m <> CE \/ (c_recv c = true /\ m_req m = false) \/ (c_recv c = false /\ m_req m = true)) ->
-  dispatch n cid m = (n, []).
-Proof.
-  intros Hc Hs Hm. unfold dispatch. rewrite Hc. unfold gate_passes. rewrite Hs.
-  destruct Hm as [Hm | [[Hr Hq] | [Hr Hq]]].
-  - destruct (m_cmd m); try reflexivity. congruence.
-  - rewrite Hr, Hq, Bool.andb_false_r. reflexivity.
-  - rewrite Hr, Hq, Bool.andb_false_r. reflexivity.
-Qed.
-
-(* C06: a CLOSING or CLOSED connection drops every message *)
-Theorem C06_gate_closing n cid c m :
-  get_conn n cid = Some c -> (c_state c = SClosing \/ c_state c = SClosed) ->
-  dispatch n cid m = (n, []).
-Proof.
-  intros Hc Hs. unfold dispatch. rewrite Hc. unfold gate_passes.
-  destruct Hs as [-> | ->]; reflexivity.
-Qed.
-
-Lemma cer_accept_get n1 cid c1 h sa sc a :
-  get_conn n1 cid = Some c1 ->
-  let n2 := set_conns n1 (upd_conn (n_conns n1) cid (fun c => set_cident c (c_node_name c) h sa sc)) in
-  exists c', get_conn (fst (send_message (flag_ready (assign_peer_conn n2 cid) cid) cid a)) cid = Some c'
-             /\ c_state c' = SReady /\ c_host c' = h /\ c_recv c' = c_recv c1.
-Proof.
-  intros Hc n2. rewrite send_message_get, Nat.eqb_refl.
-  unfold get_conn at 1. rewrite flag_ready_conns, assign_peer_conn_conns.
-  rewrite find_upd by solve_idp. rewrite Nat.eqb_refl.
-  fold (get_conn n2 cid). unfold n2. rewrite get_conn_upd by solve_idp.
-  rewrite Nat.eqb_refl, Hc. cbn [option_map]. eexists. split; [reflexivity|].
-  cbn. auto.
-Qed.
-
-(* C06: a CER of a configured peer sharing an application is answered 2001 and the connection becomes READY *)
-Theorem C06_cer_known n cid c m h p :
-  get_conn n cid = Some c -> m_origin m = Present h -> get_peer n h = Some p ->
-  (inter_z (node_auth n) (m_auth m) <> [] \/ inter_z (node_acct n) (m_acct m) <> [] \/
-   mem_z APP_RELAY (m_auth m) || mem_z APP_RELAY (m_acct m) = true) ->
-  snd (recv_cer n cid m) = [OQueue cid (answer_of m (Some 2001) [])] /\
-  exists c', get_conn (fst (recv_cer n cid m)) cid = Some c' /\ c_state c' = SReady /\ c_host c' = h.
-Proof.
-  intros Hc Ho Hp Hsh. unfold recv_cer. rewrite Ho. cbn [pres_get]. rewrite Hp.
-  set (n1 := set_conns n _).
-  assert (Hc1 : exists c1, get_conn n1 cid = Some c1).
-  { unfold n1. rewrite get_conn_upd by solve_idp. rewrite Nat.eqb_refl, Hc. cbn. eauto. }
-  destruct Hc1 as [c1 Hc1].
-  change (node_auth n1) with (node_auth n). change (node_acct n1) with (node_acct n).
-  unfold RC_SUCCESS.
-  destruct (inter_z (node_auth n) (m_auth m)) as [|x xs] eqn:Ea;
-  destruct (inter_z (node_acct n) (m_acct m)) as [|y ys] eqn:Eb;
-  destruct (mem_z APP_RELAY (m_auth m) || mem_z APP_RELAY (m_acct m)) eqn:Er;
-  try (exfalso; destruct Hsh as [H|[H|H]]; congruence);
-  (split; [apply send_message_out|]);
-  match goal with |- context [set_cident _ _ h ?sa ?sc] =>
-    destruct (cer_accept_get n1 cid c1 h sa sc (answer_of m (Some 2001) []) Hc1) as [c' [H1 [H2 [H3 _]]]] end;
-  exists c'; auto.
-Qed.
-
-(* C06: a CER of an unknown peer is answered 3010 and the connection is CLOSING *)
-Theorem C06_cer_unknown n cid c m h :
-  get_conn n cid = Some c -> m_origin m = Present h -> get_peer n h = None ->
-  snd (recv_cer n cid m) = [OQueue cid (answer_of m (Some 3010) [])] /\
-  exists c', get_conn (fst (recv_cer n cid m)) cid = Some c' /\ c_state c' = SClosing.
-Proof.
-  intros Hc Ho Hp. unfold recv_cer. rewrite Ho. cbn [pres_get]. rewrite Hp.
-  split; [apply send_message_out|].
-  rewrite send_message_get, Nat.eqb_refl, get_conn_upd by solve_idp.
-  rewrite Nat.eqb_refl, Hc. cbn [option_map]. eexists. split; [reflexivity|reflexivity].
-Qed.
-
-(* C06: a CER of a configured peer with no common application is answered 5010; the state is unchanged *)
-Theorem C06_cer_no_common n cid c m h p :
-  get_conn n cid = Some c -> m_origin m = Present h -> get_peer n h = Some p ->
-  inter_z (node_auth n) (m_auth m) = [] -> inter_z (node_acct n) (m_acct m) = [] ->
-  mem_z APP_RELAY (m_auth m) || mem_z APP_RELAY (m_acct m) = false ->
-  snd (recv_cer n cid m) = [OQueue cid (answer_of m (Some 5010) [])] /\
-  exists c', get_conn (fst (recv_cer n cid m)) cid = Some c' /\ c_state c' = c_state c.
-Proof.
-  intros Hc Ho Hp Ha Hb Hr. unfold recv_cer. rewrite Ho. cbn [pres_get]. rewrite Hp.
-  set (n1 := set_conns n _).
-  change (node_auth n1) with (node_auth n). change (node_acct n1) with (node_acct n).
-  rewrite Ha, Hb, Hr.
-  split; [apply send_message_out|].
-  rewrite send_message_get, Nat.eqb_refl. unfold n1. rewrite get_conn_upd by solve_idp.
-  rewrite Nat.eqb_refl, Hc. cbn [option_map]. eexists. split; [reflexivity|].
-  cbn. destruct (String.eqb (c_node_name c) ""); reflexivity.
-Qed.
-
 (* ---- remove_conn / close_conn ------------------------------------------------------------ *)
 Lemma filter_ne_none (l : list conn) i :
   List.find (fun c => Nat.eqb (c_id c) i) l = None ->
@@ -302,6 +207,556 @@ Qed.
 Lemma close_conn_some n cid r c :
   get_conn n cid = Some c -> close_conn n cid r = (remove_conn n cid r, [OClose cid r]).
 Proof. intros H. unfold close_conn. rewrite H. reflexivity. Qed.
+
+Lemma close_conn_none n cid r : get_conn n cid = None -> close_conn n cid r = (n, []).
+Proof. intros H. unfold close_conn. rewrite H. reflexivity. Qed.
+
+(* removing a connection changes the readiness flag of applications only: the advertised ids are kept *)
+Definition app_keep (F : nat * app -> app) : Prop :=
+  forall ia, a_id (F ia) = a_id (snd ia) /\ a_auth (F ia) = a_auth (snd ia) /\ a_acct (F ia) = a_acct (snd ia).
+
+Lemma remap_auth F (l : list app) : app_keep F -> forall s,
+  List.map a_id (List.filter a_auth (List.map F (List.combine (List.seq s (List.length l)) l))) =
+  List.map a_id (List.filter a_auth l).
+Proof.
+  intros HF. induction l as [|a r IH]; intros s; [reflexivity|].
+  cbn [List.length List.seq List.combine List.map List.filter].
+  destruct (HF (s, a)) as [H1 [H2 _]]. cbn [snd] in H1, H2. rewrite H2.
+  destruct (a_auth a); cbn [List.map]; rewrite ?H1, IH; reflexivity.
+Qed.
+
+Lemma remap_acct F (l : list app) : app_keep F -> forall s,
+  List.map a_id (List.filter a_acct (List.map F (List.combine (List.seq s (List.length l)) l))) =
+  List.map a_id (List.filter a_acct l).
+Proof.
+  intros HF. induction l as [|a r IH]; intros s; [reflexivity|].
+  cbn [List.length List.seq List.combine List.map List.filter].
+  destruct (HF (s, a)) as [H1 [_ H3]]. cbn [snd] in H1, H3. rewrite H3.
+  destruct (a_acct a); cbn [List.map]; rewrite ?H1, IH; reflexivity.
+Qed.
+
+Lemma remove_conn_ids n cid r :
+  node_auth (remove_conn n cid r) = node_auth n /\ node_acct (remove_conn n cid r) = node_acct n.
+Proof.
+  unfold remove_conn, node_auth, node_acct. destruct (get_conn n cid) as [c|]; [|split; reflexivity].
+  destruct (find_conn_peer n c) as [p|]; [destruct (p_conn p) as [k|]; [destruct (Nat.eqb k cid)|]|];
+    cbn [n_apps set_apps set_tables set_waiting set_peers set_conns];
+    (split; [apply remap_auth|apply remap_acct]);
+    intros [i a]; cbn [snd];
+    match goal with |- context [if ?b then _ else _] => destruct b end; repeat split.
+Qed.
+
+Lemma close_conn_ids n cid r :
+  node_auth (fst (close_conn n cid r)) = node_auth n /\ node_acct (fst (close_conn n cid r)) = node_acct n.
+Proof.
+  unfold close_conn. destruct (get_conn n cid); cbn [fst]; [apply remove_conn_ids|split; reflexivity].
+Qed.
+
+(* ---- close_all (the election's removal of the rival connections) ------------------------------- *)
+Lemma mclose_all_cons n k l r :
+  close_all n (k :: l) r =
+  let '(n1, o1) := close_conn n k r in let '(n2, o2) := close_all n1 l r in (n2, o1 ++ o2).
+Proof. reflexivity. Qed.
+
+Lemma mclose_all_get l : forall n r j,
+  get_conn (fst (close_all n l r)) j = if mem_nat j l then None else get_conn n j.
+Proof.
+  induction l as [|k l IH]; intros n r j; [reflexivity|].
+  rewrite mclose_all_cons. pose proof (close_conn_get n k r j) as H1.
+  destruct (close_conn n k r) as [n1 o1]. specialize (IH n1 r j). destruct (close_all n1 l r) as [n2 o2].
+  cbn [fst] in *. rewrite IH, H1. unfold mem_nat. cbn [List.existsb].
+  destruct (Nat.eqb j k); cbn [orb]; [|reflexivity]. destruct (List.existsb (Nat.eqb j) l); reflexivity.
+Qed.
+
+Lemma mem_nat_in x l : mem_nat x l = true <-> List.In x l.
+Proof.
+  unfold mem_nat. rewrite List.existsb_exists. split.
+  - intros [y [Hin He]]. apply Nat.eqb_eq in He. subst. exact Hin.
+  - intros Hin. exists x. split; [exact Hin|apply Nat.eqb_refl].
+Qed.
+
+Lemma mclose_all_get_in l n r j : List.In j l -> get_conn (fst (close_all n l r)) j = None.
+Proof. intros H. rewrite mclose_all_get. apply mem_nat_in in H. rewrite H. reflexivity. Qed.
+
+Lemma mclose_all_get_notin l n r j : ~ List.In j l -> get_conn (fst (close_all n l r)) j = get_conn n j.
+Proof.
+  intros H. rewrite mclose_all_get. destruct (mem_nat j l) eqn:E; [|reflexivity].
+  apply mem_nat_in in E. contradiction.
+Qed.
+
+Lemma mclose_all_ids l : forall n r,
+  node_auth (fst (close_all n l r)) = node_auth n /\ node_acct (fst (close_all n l r)) = node_acct n.
+Proof.
+  induction l as [|k l IH]; intros n r; [split; reflexivity|].
+  rewrite mclose_all_cons. pose proof (close_conn_ids n k r) as [H1 H2].
+  destruct (close_conn n k r) as [n1 o1]. destruct (IH n1 r) as [H3 H4]. destruct (close_all n1 l r) as [n2 o2].
+  cbn [fst] in *. split; congruence.
+Qed.
+
+(* the outputs of close_all depend on the connection numbers only *)
+Definition cids (n : node) : list nat := List.map c_id (n_conns n).
+
+Fixpoint close_outs (ids l : list nat) (r : Z) : list output :=
+  match l with
+  | [] => []
+  | k :: t => (if mem_nat k ids then [OClose k r] else []) ++ close_outs (remove_nat k ids) t r
+  end.
+
+Lemma mem_nat_cids n k : mem_nat k (cids n) = match get_conn n k with Some _ => true | None => false end.
+Proof.
+  unfold mem_nat, cids, get_conn. induction (n_conns n) as [|c l IH]; [reflexivity|].
+  cbn [List.map List.existsb List.find]. rewrite (Nat.eqb_sym k (c_id c)).
+  destruct (Nat.eqb (c_id c) k); [reflexivity|exact IH].
+Qed.
+
+Lemma close_conn_cids n k r : cids (fst (close_conn n k r)) = remove_nat k (cids n).
+Proof.
+  unfold cids. assert (H : n_conns (fst (close_conn n k r)) = List.filter (fun x => negb (Nat.eqb (c_id x) k)) (n_conns n)).
+  { unfold close_conn. destruct (get_conn n k) eqn:Hc; cbn [fst]; [apply remove_conn_spec|].
+    symmetry. apply filter_ne_none. exact Hc. }
+  rewrite H. clear H. unfold remove_nat. induction (n_conns n) as [|c l IH]; [reflexivity|].
+  cbn [List.map List.filter]. rewrite (Nat.eqb_sym k (c_id c)).
+  destruct (Nat.eqb (c_id c) k); cbn [negb List.map]; rewrite IH; reflexivity.
+Qed.
+
+Lemma close_conn_out n k r : snd (close_conn n k r) = if mem_nat k (cids n) then [OClose k r] else [].
+Proof. rewrite mem_nat_cids. unfold close_conn. destruct (get_conn n k); reflexivity. Qed.
+
+Lemma mclose_all_outs l : forall n r, snd (close_all n l r) = close_outs (cids n) l r.
+Proof.
+  induction l as [|k l IH]; intros n r; [reflexivity|].
+  rewrite mclose_all_cons. pose proof (close_conn_out n k r) as H1. pose proof (close_conn_cids n k r) as H2.
+  destruct (close_conn n k r) as [n1 o1]. specialize (IH n1 r). destruct (close_all n1 l r) as [n2 o2].
+  cbn [fst snd close_outs] in *. rewrite H1, IH, H2. reflexivity.
+Qed.
+
+Lemma upd_conn_cids n i f : idp f -> cids (set_conns n (upd_conn (n_conns n) i f)) = cids n.
+Proof.
+  intros Hf. unfold cids. cbn [n_conns set_conns]. induction (n_conns n) as [|c l IH]; [reflexivity|].
+  cbn [upd_conn]. destruct (Nat.eqb (c_id c) i); cbn [List.map]; [rewrite Hf|rewrite IH]; reflexivity.
+Qed.
+
+(* every output of close_all is the closing of one of the listed connections ... *)
+Lemma mclose_all_outs_in l : forall n r o,
+  List.In o (snd (close_all n l r)) -> exists k, List.In k l /\ o = OClose k r.
+Proof.
+  induction l as [|k l IH]; intros n r o Ho; [destruct Ho|].
+  rewrite mclose_all_cons in Ho. pose proof (close_conn_out n k r) as H1.
+  destruct (close_conn n k r) as [n1 o1]. specialize (IH n1 r o). destruct (close_all n1 l r) as [n2 o2].
+  cbn [fst snd] in *. apply List.in_app_or in Ho. destruct Ho as [Ho|Ho].
+  - rewrite H1 in Ho. destruct (mem_nat k (cids n)); [|destruct Ho]. destruct Ho as [<-|[]].
+    exists k. split; [left; reflexivity|reflexivity].
+  - destruct (IH Ho) as [k' [Hin He]]. exists k'. split; [right; exact Hin|exact He].
+Qed.
+
+(* ... each listed connection that exists is closed ... *)
+Lemma mclose_all_closes l : forall n r k,
+  List.In k l -> get_conn n k <> None -> List.In (OClose k r) (snd (close_all n l r)).
+Proof.
+  induction l as [|a l IH]; intros n r k Hin Hk; [destruct Hin|].
+  rewrite mclose_all_cons. pose proof (close_conn_get n a r k) as Hg.
+  destruct (Nat.eq_dec a k) as [->|Hne].
+  - destruct (get_conn n k) as [c|] eqn:Hc; [|congruence]. rewrite (close_conn_some n k r c Hc).
+    destruct (close_all (remove_conn n k r) l r). cbn [snd]. left. reflexivity.
+  - destruct (close_conn n a r) as [n1 o1]. specialize (IH n1 r k). destruct (close_all n1 l r) as [n2 o2].
+    cbn [fst snd] in *. apply List.in_or_app. right. apply IH; [destruct Hin; [congruence|assumption]|].
+    rewrite Hg. assert (E : Nat.eqb k a = false) by (apply Nat.eqb_neq; congruence). rewrite E. exact Hk.
+Qed.
+
+(* ... and with distinct, existing numbers the outputs are exactly one OClose per number, in order *)
+Lemma mclose_all_outs_nodup l : forall n r,
+  List.NoDup l -> (forall k, List.In k l -> get_conn n k <> None) ->
+  snd (close_all n l r) = List.map (fun k => OClose k r) l.
+Proof.
+  induction l as [|a l IH]; intros n r Hnd Hex; [reflexivity|].
+  inversion Hnd as [|? ? Hnotin Hnd']; subst.
+  rewrite mclose_all_cons. destruct (get_conn n a) as [c|] eqn:Hc; [|exfalso; apply (Hex a); [left; reflexivity|exact Hc]].
+  rewrite (close_conn_some n a r c Hc).
+  assert (H1 : forall k, List.In k l -> get_conn (remove_conn n a r) k <> None).
+  { intros k Hk. rewrite remove_conn_get. assert (E : Nat.eqb k a = false) by (apply Nat.eqb_neq; intros ->; contradiction).
+    rewrite E. apply Hex. right. exact Hk. }
+  specialize (IH (remove_conn n a r) r Hnd' H1). destruct (close_all (remove_conn n a r) l r) as [n2 o2].
+  cbn [snd] in *. rewrite IH. reflexivity.
+Qed.
+
+(* ---- election_rivals ------------------------------------------------------------------------------ *)
+Lemma election_rivals_upd n cid h f :
+  idp f -> election_rivals (set_conns n (upd_conn (n_conns n) cid f)) cid h = election_rivals n cid h.
+Proof.
+  intros Hf. unfold election_rivals. cbn [n_conns set_conns].
+  induction (n_conns n) as [|c r IH]; [reflexivity|].
+  cbn [upd_conn]. destruct (Nat.eqb (c_id c) cid) eqn:E; cbn [List.filter].
+  - rewrite Hf, E. reflexivity.
+  - rewrite E. cbn [negb andb]. destruct (String.eqb (c_node_name c) h); cbn [List.map]; rewrite IH; reflexivity.
+Qed.
+
+Lemma find_in_some (l : list conn) c :
+  List.In c l -> exists c', List.find (fun x => Nat.eqb (c_id x) (c_id c)) l = Some c'.
+Proof.
+  intros Hin. destruct (List.find (fun x => Nat.eqb (c_id x) (c_id c)) l) eqn:E; [eauto|].
+  exfalso. apply (List.find_none _ _ E) in Hin. rewrite Nat.eqb_refl in Hin. discriminate.
+Qed.
+
+(* a rival is another existing connection whose node name is the CER's Origin-Host *)
+Lemma election_rivals_in n cid h k :
+  List.In k (election_rivals n cid h) <->
+  exists c, List.In c (n_conns n) /\ c_id c = k /\ k <> cid /\ c_node_name c = h.
+Proof.
+  unfold election_rivals. rewrite List.in_map_iff. split.
+  - intros [c [Hid Hin]]. apply List.filter_In in Hin. destruct Hin as [Hin Hf].
+    apply Bool.andb_true_iff in Hf. destruct Hf as [H1 H2]. apply Bool.negb_true_iff, Nat.eqb_neq in H1.
+    apply String.eqb_eq in H2. exists c. repeat split; congruence.
+  - intros [c [Hin [Hid [Hne Hnm]]]]. exists c. split; [exact Hid|]. apply List.filter_In. split; [exact Hin|].
+    apply Bool.andb_true_iff. split; [apply Bool.negb_true_iff, Nat.eqb_neq; congruence|apply String.eqb_eq, Hnm].
+Qed.
+
+Lemma election_rivals_exist n cid h k :
+  List.In k (election_rivals n cid h) -> get_conn n k <> None /\ k <> cid.
+Proof.
+  intros H. apply election_rivals_in in H. destruct H as [c [Hin [Hid [Hne _]]]]. split; [|exact Hne].
+  destruct (find_in_some _ c Hin) as [c' Hc']. unfold get_conn. rewrite <- Hid, Hc'. discriminate.
+Qed.
+
+Lemma election_rivals_nodup n cid h : List.NoDup (cids n) -> List.NoDup (election_rivals n cid h).
+Proof.
+  unfold cids, election_rivals. induction (n_conns n) as [|c l IH]; intros Hnd; [constructor|].
+  cbn [List.map] in Hnd. inversion Hnd as [|? ? Hnotin Hnd']; subst. cbn [List.filter].
+  destruct (negb (Nat.eqb (c_id c) cid) && String.eqb (c_node_name c) h); [|apply IH, Hnd'].
+  cbn [List.map]. constructor; [|apply IH, Hnd']. intros Hin. apply Hnotin.
+  apply List.in_map_iff in Hin. destruct Hin as [x [Hx Hin]]. apply List.filter_In in Hin.
+  rewrite <- Hx. apply List.in_map. tauto.
+Qed.
+
+(* ================================================================================== *)
+(* C06: capabilities exchange gates all traffic                                        *)
+(* ================================================================================== *)
+
+(* C06: a CONNECTED connection drops every message that is not the expected CER / CEA *)
+Theorem C06_gate_connected n cid c m :
+  get_conn n cid = Some c -> c_state c = SConnected ->
+  (m_cmd m <> CE \/ (c_recv c = true /\ m_req m = false) \/ (c_recv c = false /\ m_req m = true)) ->
+  dispatch n cid m = (n, []).
+Proof.
+  intros Hc Hs Hm. unfold dispatch. rewrite Hc. unfold gate_passes. rewrite Hs.
+  destruct Hm as [Hm | [[Hr Hq] | [Hr Hq]]].
+  - destruct (m_cmd m); try reflexivity. congruence.
+  - rewrite Hr, Hq, Bool.andb_false_r. reflexivity.
+  - rewrite Hr, Hq, Bool.andb_false_r. reflexivity.
+Qed.
+
+(* C06: a CLOSING or CLOSED connection drops every message *)
+Theorem C06_gate_closing n cid c m :
+  get_conn n cid = Some c -> (c_state c = SClosing \/ c_state c = SClosed) ->
+  dispatch n cid m = (n, []).
+Proof.
+  intros Hc Hs. unfold dispatch. rewrite Hc. unfold gate_passes.
+  destruct Hs as [-> | ->]; reflexivity.
+Qed.
+
+(* ---- recv_cer for a configured peer: the election, then the negotiation ---------------------------- *)
+(* the connection takes the name of the peer if it has none (an accepted connection) *)
+Definition cer_name (h : string) : conn -> conn :=
+  fun c => if String.eqb (c_node_name c) "" then set_cident c h (c_host c) (c_auth c) (c_acct c) else c.
+Lemma idp_cer_name h : idp (cer_name h).
+Proof. intro c. unfold cer_name. destruct (String.eqb (c_node_name c) ""); reflexivity. Qed.
+#[local] Hint Resolve idp_cer_name : idp.
+Definition cer_named (n : node) (cid : nat) (h : string) : node :=
+  set_conns n (upd_conn (n_conns n) cid (cer_name h)).
+
+(* the negotiation of the applications (the part of receive_cer after the election) *)
+Definition cer_negotiate (n1 : node) (cid : nat) (m : msg) (h : string) : node * list output :=
+  let sup_auth := inter_z (node_auth n1) (m_auth m) in
+  let sup_acct := inter_z (node_acct n1) (m_acct m) in
+  let relay := mem_z APP_RELAY (m_auth m) || mem_z APP_RELAY (m_acct m) in
+  match sup_auth, sup_acct, relay with
+  | [], [], false => send_message n1 cid (answer_of m (Some RC_NO_COMMON_APP) [])
+  | _, _, _ =>
+      let n2 := set_conns n1 (upd_conn (n_conns n1) cid (fun c => set_cident c (c_node_name c) h sup_auth sup_acct)) in
+      send_message (flag_ready (assign_peer_conn n2 cid) cid) cid (answer_of m (Some RC_SUCCESS) [])
+  end.
+
+Definition cer_lost (n : node) (cid : nat) (m : msg) (h : string) : node * list output :=
+  let n0 := cer_named n cid h in
+  send_message (set_conns n0 (upd_conn (n_conns n0) cid (fun c => set_cstate c SClosing))) cid
+               (answer_of m (Some RC_ELECTION_LOST) []).
+
+Definition cer_won (n : node) (cid : nat) (m : msg) (h : string) : node * list output :=
+  let '(n1, oel) := close_all (cer_named n cid h) (election_rivals n cid h) R_CLEAN in
+  let '(n2, o) := cer_negotiate n1 cid m h in (n2, oel ++ o).
+
+Lemma recv_cer_known n cid m h p :
+  m_origin m = Present h -> get_peer n h = Some p ->
+  recv_cer n cid m =
+  match election_rivals n cid h with
+  | [] => cer_won n cid m h
+  | _ :: _ => if String.ltb h (g_host (n_cfg n)) then cer_won n cid m h else cer_lost n cid m h
+  end.
+Proof.
+  intros Ho Hp. unfold recv_cer. rewrite Ho. cbn [pres_get]. rewrite Hp. cbv zeta.
+  pose proof (election_rivals_upd n cid h _ (idp_cer_name h)) as Hriv. unfold cer_name in Hriv. rewrite Hriv. clear Hriv.
+  unfold cer_won, cer_lost, cer_named, cer_name. cbn [n_cfg set_conns].
+  destruct (election_rivals n cid h) as [|k ks]; [|destruct (String.ltb h (g_host (n_cfg n))); [|reflexivity]];
+    match goal with |- context [close_all ?a ?b ?c] => destruct (close_all a b c) as [n1 oel] end;
+    unfold cer_negotiate;
+    destruct (inter_z (node_auth n1) (m_auth m)); destruct (inter_z (node_acct n1) (m_acct m));
+    destruct (mem_z APP_RELAY (m_auth m) || mem_z APP_RELAY (m_acct m)); reflexivity.
+Qed.
+
+Definition shares_app (n : node) (m : msg) : Prop :=
+  inter_z (node_auth n) (m_auth m) <> [] \/ inter_z (node_acct n) (m_acct m) <> [] \/
+  mem_z APP_RELAY (m_auth m) || mem_z APP_RELAY (m_acct m) = true.
+
+Lemma cer_accept_get n1 cid c1 h sa sc a :
+  get_conn n1 cid = Some c1 ->
+  let n2 := set_conns n1 (upd_conn (n_conns n1) cid (fun c => set_cident c (c_node_name c) h sa sc)) in
+  (exists c', get_conn (fst (send_message (flag_ready (assign_peer_conn n2 cid) cid) cid a)) cid = Some c'
+             /\ c_state c' = SReady /\ c_host c' = h /\ c_recv c' = c_recv c1) /\
+  (forall j, j <> cid ->
+     get_conn (fst (send_message (flag_ready (assign_peer_conn n2 cid) cid) cid a)) j = get_conn n1 j).
+Proof.
+  intros Hc n2. split.
+  - rewrite send_message_get, Nat.eqb_refl.
+    unfold get_conn at 1. rewrite flag_ready_conns, assign_peer_conn_conns.
+    rewrite find_upd by solve_idp. rewrite Nat.eqb_refl.
+    fold (get_conn n2 cid). unfold n2. rewrite get_conn_upd by solve_idp.
+    rewrite Nat.eqb_refl, Hc. cbn [option_map]. eexists. split; [reflexivity|].
+    cbn. auto.
+  - intros j Hne. apply Nat.eqb_neq in Hne. rewrite send_message_get, Hne.
+    unfold get_conn at 1. rewrite flag_ready_conns, assign_peer_conn_conns.
+    rewrite find_upd by solve_idp. rewrite Hne.
+    fold (get_conn n2 j). unfold n2. rewrite get_conn_upd by solve_idp. rewrite Hne. reflexivity.
+Qed.
+
+(* the negotiation: a shared application (or relay) => 2001 and READY; otherwise 5010 and the state is kept *)
+Lemma cer_negotiate_shared n1 cid c1 m h :
+  get_conn n1 cid = Some c1 -> shares_app n1 m ->
+  snd (cer_negotiate n1 cid m h) = [OQueue cid (answer_of m (Some 2001) [])] /\
+  (exists c', get_conn (fst (cer_negotiate n1 cid m h)) cid = Some c' /\ c_state c' = SReady /\ c_host c' = h
+              /\ c_recv c' = c_recv c1) /\
+  (forall j, j <> cid -> get_conn (fst (cer_negotiate n1 cid m h)) j = get_conn n1 j).
+Proof.
+  intros Hc1 Hsh. unfold cer_negotiate, shares_app, RC_SUCCESS in *.
+  destruct (inter_z (node_auth n1) (m_auth m)) as [|x xs] eqn:Ea;
+  destruct (inter_z (node_acct n1) (m_acct m)) as [|y ys] eqn:Eb;
+  destruct (mem_z APP_RELAY (m_auth m) || mem_z APP_RELAY (m_acct m)) eqn:Er;
+  try (exfalso; destruct Hsh as [H|[H|H]]; congruence);
+  (split; [apply send_message_out|]);
+  match goal with |- context [set_cident _ _ h ?sa ?sc] =>
+    exact (cer_accept_get n1 cid c1 h sa sc (answer_of m (Some 2001) []) Hc1) end.
+Qed.
+
+Lemma cer_negotiate_none n1 cid c1 m h :
+  get_conn n1 cid = Some c1 ->
+  inter_z (node_auth n1) (m_auth m) = [] -> inter_z (node_acct n1) (m_acct m) = [] ->
+  mem_z APP_RELAY (m_auth m) || mem_z APP_RELAY (m_acct m) = false ->
+  snd (cer_negotiate n1 cid m h) = [OQueue cid (answer_of m (Some 5010) [])] /\
+  get_conn (fst (cer_negotiate n1 cid m h)) cid = Some (qout (answer_of m (Some 5010) []) c1) /\
+  (forall j, j <> cid -> get_conn (fst (cer_negotiate n1 cid m h)) j = get_conn n1 j).
+Proof.
+  intros Hc1 Ha Hb Hr. unfold cer_negotiate. rewrite Ha, Hb, Hr. unfold RC_NO_COMMON_APP.
+  split; [apply send_message_out|]. split.
+  - rewrite send_message_get, Nat.eqb_refl, Hc1. reflexivity.
+  - intros j Hne. apply Nat.eqb_neq in Hne. rewrite send_message_get, Hne. reflexivity.
+Qed.
+
+(* the node on which the negotiation runs once the election is won: the rivals are gone, the connection
+   has its name, everything else is as before *)
+Lemma cer_won_unfold n cid c m h :
+  get_conn n cid = Some c ->
+  let rivals := election_rivals n cid h in
+  let n1 := fst (close_all (cer_named n cid h) rivals R_CLEAN) in
+  cer_won n cid m h = (fst (cer_negotiate n1 cid m h),
+                       snd (close_all n rivals R_CLEAN) ++ snd (cer_negotiate n1 cid m h)) /\
+  get_conn n1 cid = Some (cer_name h c) /\
+  (forall k, List.In k rivals -> get_conn n1 k = None) /\
+  (forall j, j <> cid -> ~ List.In j rivals -> get_conn n1 j = get_conn n j) /\
+  node_auth n1 = node_auth n /\ node_acct n1 = node_acct n.
+Proof.
+  intros Hc rivals n1.
+  assert (Hnotin : ~ List.In cid rivals).
+  { intros H. apply election_rivals_exist in H. destruct H as [_ H]. congruence. }
+  split; [|split; [|split; [|split]]].
+  - unfold cer_won. fold rivals.
+    assert (Ho : snd (close_all (cer_named n cid h) rivals R_CLEAN) = snd (close_all n rivals R_CLEAN)).
+    { rewrite !mclose_all_outs. unfold cer_named. rewrite upd_conn_cids by auto with idp. reflexivity. }
+    unfold n1. destruct (close_all (cer_named n cid h) rivals R_CLEAN) as [n1' oel]. cbn [fst snd] in *.
+    destruct (cer_negotiate n1' cid m h) as [n2 o]. cbn [fst snd]. rewrite Ho. reflexivity.
+  - unfold n1. rewrite mclose_all_get_notin by exact Hnotin. unfold cer_named.
+    apply get_conn_upd_same; [auto with idp|exact Hc].
+  - intros k Hk. unfold n1. apply mclose_all_get_in, Hk.
+  - intros j Hne Hj. unfold n1. rewrite mclose_all_get_notin by exact Hj. unfold cer_named.
+    apply get_conn_upd_other; [auto with idp|exact Hne].
+  - unfold n1. destruct (mclose_all_ids rivals (cer_named n cid h) R_CLEAN) as [H1 H2]. rewrite H1, H2.
+    split; reflexivity.
+Qed.
+
+(* C06: a CER of a configured peer sharing an application, the election being decided for the new connection
+   (no other connection towards that peer, or the local name is the greater one): the rivals are closed
+   (CLEAN), the CER is answered 2001 and the connection becomes READY *)
+Theorem C06_cer_known n cid c m h p :
+  get_conn n cid = Some c -> m_origin m = Present h -> get_peer n h = Some p ->
+  (election_rivals n cid h = [] \/ String.ltb h (g_host (n_cfg n)) = true) ->
+  (inter_z (node_auth n) (m_auth m) <> [] \/ inter_z (node_acct n) (m_acct m) <> [] \/
+   mem_z APP_RELAY (m_auth m) || mem_z APP_RELAY (m_acct m) = true) ->
+  snd (recv_cer n cid m) =
+    snd (close_all n (election_rivals n cid h) R_CLEAN) ++ [OQueue cid (answer_of m (Some 2001) [])] /\
+  (forall k, List.In k (election_rivals n cid h) ->
+     List.In (OClose k R_CLEAN) (snd (recv_cer n cid m)) /\ get_conn (fst (recv_cer n cid m)) k = None) /\
+  exists c', get_conn (fst (recv_cer n cid m)) cid = Some c' /\ c_state c' = SReady /\ c_host c' = h.
+Proof.
+  intros Hc Ho Hp Hel Hsh. rewrite (recv_cer_known n cid m h p Ho Hp).
+  assert (E : match election_rivals n cid h with
+              | [] => cer_won n cid m h
+              | _ :: _ => if String.ltb h (g_host (n_cfg n)) then cer_won n cid m h else cer_lost n cid m h
+              end = cer_won n cid m h).
+  { destruct Hel as [->| ->]; [reflexivity|]. destruct (election_rivals n cid h); reflexivity. }
+  rewrite E. clear E.
+  destruct (cer_won_unfold n cid c m h Hc) as [Hw [Hc1 [Hriv [_ [Ha Hb]]]]]. cbv zeta in *.
+  set (n1 := fst (close_all (cer_named n cid h) (election_rivals n cid h) R_CLEAN)) in *.
+  assert (Hsh1 : shares_app n1 m) by (unfold shares_app; rewrite Ha, Hb; exact Hsh).
+  destruct (cer_negotiate_shared n1 cid _ m h Hc1 Hsh1) as [Hout [[c' [Hc' [Hs' [Hh' _]]]] Hoth]].
+  rewrite Hw. cbn [fst snd]. rewrite Hout. split; [reflexivity|]. split.
+  - intros k Hk. destruct (election_rivals_exist n cid h k Hk) as [Hex Hne]. split.
+    + apply List.in_or_app. left. apply mclose_all_closes; assumption.
+    + rewrite Hoth by exact Hne. apply Hriv, Hk.
+  - exists c'. auto.
+Qed.
+
+(* C06: ... with no other connection towards that peer the answer is the only output *)
+Theorem C06_cer_known_no_rivals n cid c m h p :
+  get_conn n cid = Some c -> m_origin m = Present h -> get_peer n h = Some p ->
+  election_rivals n cid h = [] ->
+  (inter_z (node_auth n) (m_auth m) <> [] \/ inter_z (node_acct n) (m_acct m) <> [] \/
+   mem_z APP_RELAY (m_auth m) || mem_z APP_RELAY (m_acct m) = true) ->
+  snd (recv_cer n cid m) = [OQueue cid (answer_of m (Some 2001) [])] /\
+  exists c', get_conn (fst (recv_cer n cid m)) cid = Some c' /\ c_state c' = SReady /\ c_host c' = h.
+Proof.
+  intros Hc Ho Hp Hel Hsh.
+  destruct (C06_cer_known n cid c m h p Hc Ho Hp (or_introl Hel) Hsh) as [H1 [_ H2]].
+  rewrite Hel in H1. split; [exact H1|exact H2].
+Qed.
+
+(* C06: the election is won (there are other connections towards the peer and the local name is the
+   greater one): every rival is closed (CLEAN) and removed, then the CER is answered 2001, READY *)
+Theorem C06_cer_election_won n cid c m h p :
+  get_conn n cid = Some c -> m_origin m = Present h -> get_peer n h = Some p ->
+  election_rivals n cid h <> [] -> String.ltb h (g_host (n_cfg n)) = true ->
+  (inter_z (node_auth n) (m_auth m) <> [] \/ inter_z (node_acct n) (m_acct m) <> [] \/
+   mem_z APP_RELAY (m_auth m) || mem_z APP_RELAY (m_acct m) = true) ->
+  (forall k, List.In k (election_rivals n cid h) ->
+     List.In (OClose k R_CLEAN) (snd (recv_cer n cid m)) /\ get_conn (fst (recv_cer n cid m)) k = None) /\
+  (exists oel, snd (recv_cer n cid m) = oel ++ [OQueue cid (answer_of m (Some 2001) [])] /\ oel <> [] /\
+     forall o, List.In o oel -> exists k, List.In k (election_rivals n cid h) /\ o = OClose k R_CLEAN) /\
+  (List.NoDup (cids n) ->
+     snd (recv_cer n cid m) = List.map (fun k => OClose k R_CLEAN) (election_rivals n cid h)
+                              ++ [OQueue cid (answer_of m (Some 2001) [])]) /\
+  exists c', get_conn (fst (recv_cer n cid m)) cid = Some c' /\ c_state c' = SReady /\ c_host c' = h.
+Proof.
+  intros Hc Ho Hp Hne Hlt Hsh.
+  destruct (C06_cer_known n cid c m h p Hc Ho Hp (or_intror Hlt) Hsh) as [H1 [H2 H3]].
+  split; [exact H2|]. split; [|split; [|exact H3]].
+  - exists (snd (close_all n (election_rivals n cid h) R_CLEAN)). split; [exact H1|]. split.
+    + destruct (election_rivals n cid h) as [|k ks] eqn:E; [congruence|].
+      intros Hnil. assert (Hin : List.In k (election_rivals n cid h)) by (rewrite E; left; reflexivity).
+      destruct (election_rivals_exist n cid h k Hin) as [Hex _].
+      pose proof (mclose_all_closes (k :: ks) n R_CLEAN k (or_introl eq_refl) Hex) as Hcl.
+      rewrite Hnil in Hcl. destruct Hcl.
+    + apply mclose_all_outs_in.
+  - intros Hnd. rewrite H1. f_equal. apply mclose_all_outs_nodup.
+    + apply election_rivals_nodup, Hnd.
+    + intros k Hk. apply (election_rivals_exist n cid h k Hk).
+Qed.
+
+(* C06: the election is lost (there are other connections towards the peer and the local name is not the
+   greater one): the CER is answered 4003, the connection is CLOSING, nothing else changes: in particular no
+   connection becomes ready *)
+Theorem C06_cer_election_lost n cid c m h p :
+  get_conn n cid = Some c -> m_origin m = Present h -> get_peer n h = Some p ->
+  election_rivals n cid h <> [] -> String.ltb h (g_host (n_cfg n)) = false ->
+  snd (recv_cer n cid m) = [OQueue cid (answer_of m (Some 4003) [])] /\
+  (exists c', get_conn (fst (recv_cer n cid m)) cid = Some c' /\ c_state c' = SClosing) /\
+  (forall j, j <> cid -> get_conn (fst (recv_cer n cid m)) j = get_conn n j) /\
+  (forall j cj, get_conn (fst (recv_cer n cid m)) j = Some cj -> is_ready_state (c_state cj) = true ->
+     exists cj0, get_conn n j = Some cj0 /\ is_ready_state (c_state cj0) = true).
+Proof.
+  intros Hc Ho Hp Hne Hlt. rewrite (recv_cer_known n cid m h p Ho Hp), Hlt.
+  destruct (election_rivals n cid h) as [|k ks]; [congruence|]. unfold cer_lost, RC_ELECTION_LOST.
+  set (n0 := cer_named n cid h).
+  assert (Hc0 : get_conn n0 cid = Some (cer_name h c))
+    by (apply get_conn_upd_same; [auto with idp|exact Hc]).
+  assert (Hcid : get_conn (fst (send_message (set_conns n0 (upd_conn (n_conns n0) cid (fun c => set_cstate c SClosing))) cid
+                                 (answer_of m (Some 4003) []))) cid =
+                 Some (qout (answer_of m (Some 4003) []) (set_cstate (cer_name h c) SClosing))).
+  { rewrite send_message_get, Nat.eqb_refl, get_conn_upd by solve_idp. rewrite Nat.eqb_refl, Hc0. reflexivity. }
+  assert (Hoth : forall j, j <> cid ->
+            get_conn (fst (send_message (set_conns n0 (upd_conn (n_conns n0) cid (fun c => set_cstate c SClosing))) cid
+                                 (answer_of m (Some 4003) []))) j = get_conn n j).
+  { intros j Hj. apply Nat.eqb_neq in Hj. rewrite send_message_get, Hj, get_conn_upd by solve_idp. rewrite Hj.
+    unfold n0, cer_named. rewrite get_conn_upd by auto with idp. rewrite Hj. reflexivity. }
+  split; [apply send_message_out|]. split; [|split; [exact Hoth|]].
+  - eexists. split; [exact Hcid|reflexivity].
+  - intros j cj Hj Hr. destruct (Nat.eq_dec j cid) as [->|Hjne].
+    + rewrite Hcid in Hj. inversion Hj; subst cj. discriminate Hr.
+    + rewrite Hoth in Hj by exact Hjne. exists cj. auto.
+Qed.
+
+(* C06: a CER of an unknown peer is answered 3010 and the connection is CLOSING *)
+Theorem C06_cer_unknown n cid c m h :
+  get_conn n cid = Some c -> m_origin m = Present h -> get_peer n h = None ->
+  snd (recv_cer n cid m) = [OQueue cid (answer_of m (Some 3010) [])] /\
+  exists c', get_conn (fst (recv_cer n cid m)) cid = Some c' /\ c_state c' = SClosing.
+Proof.
+  intros Hc Ho Hp. unfold recv_cer. rewrite Ho. cbn [pres_get]. rewrite Hp.
+  split; [apply send_message_out|].
+  rewrite send_message_get, Nat.eqb_refl, get_conn_upd by solve_idp.
+  rewrite Nat.eqb_refl, Hc. cbn [option_map]. eexists. split; [reflexivity|reflexivity].
+Qed.
+
+(* C06: a CER of a configured peer with no common application, the election being decided for the new
+   connection: the rivals are closed, the CER is answered 5010; the state is unchanged *)
+Theorem C06_cer_no_common n cid c m h p :
+  get_conn n cid = Some c -> m_origin m = Present h -> get_peer n h = Some p ->
+  (election_rivals n cid h = [] \/ String.ltb h (g_host (n_cfg n)) = true) ->
+  inter_z (node_auth n) (m_auth m) = [] -> inter_z (node_acct n) (m_acct m) = [] ->
+  mem_z APP_RELAY (m_auth m) || mem_z APP_RELAY (m_acct m) = false ->
+  snd (recv_cer n cid m) =
+    snd (close_all n (election_rivals n cid h) R_CLEAN) ++ [OQueue cid (answer_of m (Some 5010) [])] /\
+  (forall k, List.In k (election_rivals n cid h) ->
+     List.In (OClose k R_CLEAN) (snd (recv_cer n cid m)) /\ get_conn (fst (recv_cer n cid m)) k = None) /\
+  exists c', get_conn (fst (recv_cer n cid m)) cid = Some c' /\ c_state c' = c_state c.
+Proof.
+  intros Hc Ho Hp Hel Ha Hb Hr. rewrite (recv_cer_known n cid m h p Ho Hp).
+  assert (E : match election_rivals n cid h with
+              | [] => cer_won n cid m h
+              | _ :: _ => if String.ltb h (g_host (n_cfg n)) then cer_won n cid m h else cer_lost n cid m h
+              end = cer_won n cid m h).
+  { destruct Hel as [->| ->]; [reflexivity|]. destruct (election_rivals n cid h); reflexivity. }
+  rewrite E. clear E.
+  destruct (cer_won_unfold n cid c m h Hc) as [Hw [Hc1 [Hriv [_ [Ha1 Hb1]]]]]. cbv zeta in *.
+  set (n1 := fst (close_all (cer_named n cid h) (election_rivals n cid h) R_CLEAN)) in *.
+  rewrite <- Ha1 in Ha. rewrite <- Hb1 in Hb.
+  destruct (cer_negotiate_none n1 cid _ m h Hc1 Ha Hb Hr) as [Hout [Hc' Hoth]].
+  rewrite Hw. cbn [fst snd]. rewrite Hout. split; [reflexivity|]. split.
+  - intros k Hk. destruct (election_rivals_exist n cid h k Hk) as [Hex Hne]. split.
+    + apply List.in_or_app. left. apply mclose_all_closes; assumption.
+    + rewrite Hoth by exact Hne. apply Hriv, Hk.
+  - eexists. split; [exact Hc'|]. unfold cer_name. cbn.
+    destruct (String.eqb (c_node_name c) ""); reflexivity.
+Qed.
+
+(* C06: ... with no other connection towards that peer the 5010 answer is the only output *)
+Theorem C06_cer_no_common_no_rivals n cid c m h p :
+  get_conn n cid = Some c -> m_origin m = Present h -> get_peer n h = Some p ->
+  election_rivals n cid h = [] ->
+  inter_z (node_auth n) (m_auth m) = [] -> inter_z (node_acct n) (m_acct m) = [] ->
+  mem_z APP_RELAY (m_auth m) || mem_z APP_RELAY (m_acct m) = false ->
+  snd (recv_cer n cid m) = [OQueue cid (answer_of m (Some 5010) [])] /\
+  exists c', get_conn (fst (recv_cer n cid m)) cid = Some c' /\ c_state c' = c_state c.
+Proof.
+  intros Hc Ho Hp Hel Ha Hb Hr.
+  destruct (C06_cer_no_common n cid c m h p Hc Ho Hp (or_introl Hel) Ha Hb Hr) as [H1 [_ H2]].
+  rewrite Hel in H1. split; [exact H1|exact H2].
+Qed.
 
 (* ---- flush ---------------------------------------------------------------------------------- *)
 Definition flush_one (n : node) (cid : nat) : node * list output :=
@@ -536,18 +991,118 @@ Proof.
   split; [rewrite Hu, Nat.eqb_refl, H4; reflexivity|]. split; reflexivity.
 Qed.
 
-(* C06: a CEA whose Result-Code is not 2001 closes the connection (CER_REJECTED) *)
-Theorem C06_cea_rejected n cid m :
+(* ---- receive_cea ---------------------------------------------------------------------------------- *)
+Lemma cea_result_other {A} (r : pres Z) (a b : A) :
+  r <> Present 2001 -> match r with Present 2001 => a | _ => b end = b.
+Proof.
+  intros Hr. destruct r as [| |z]; try reflexivity.
+  destruct z as [|q|q]; try reflexivity.
+  do 11 (try (destruct q as [q|q|]; try reflexivity)). congruence.
+Qed.
+
+(* the result of receive_cea with the new identity and the negotiated applications stored *)
+Definition cea_accept (n : node) (cid : nat) (m : msg) (host : string) : node :=
+  let n1 := set_conns n (upd_conn (n_conns n) cid (fun c =>
+              set_cident c (c_node_name c) host (inter_z (node_auth n) (m_auth m)) (inter_z (node_acct n) (m_acct m)))) in
+  flag_ready (assign_peer_conn n1 cid) cid.
+
+Lemma recv_cea_cases n cid m :
+  recv_cea n cid m = (n, []) \/
+  recv_cea n cid m = close_conn n cid R_CER_REJECTED \/
+  exists c0 host,
+    get_conn n cid = Some c0 /\ c_state c0 = SConnected /\ m_result m = Present 2001 /\
+    m_origin m = Present host /\ (c_node_name c0 = "" \/ host = c_node_name c0) /\
+    recv_cea n cid m = (cea_accept n cid m host, []).
+Proof.
+  unfold recv_cea. destruct (get_conn n cid) as [c0|] eqn:Hc0; [|left; reflexivity].
+  destruct (c_state c0) eqn:Hs; cbn [cstate_eqb negb]; try (left; reflexivity).
+  destruct (m_result m) as [| |z] eqn:Er; try (right; left; reflexivity).
+  destruct (Z.eq_dec z 2001) as [->|Hne].
+  - cbv iota. destruct (m_origin m) as [| |host] eqn:Eo; cbn [pres_get]; try (left; reflexivity).
+    destruct (negb (String.eqb (c_node_name c0) "") && negb (String.eqb host (c_node_name c0))) eqn:Eid;
+      [right; left; reflexivity|].
+    right. right. exists c0, host.
+    refine (conj eq_refl (conj Hs (conj eq_refl (conj eq_refl (conj _ eq_refl))))).
+    apply Bool.andb_false_iff in Eid. destruct Eid as [E|E]; apply Bool.negb_false_iff, String.eqb_eq in E; auto.
+  - right. left. apply (cea_result_other (Present z)). congruence.
+Qed.
+
+(* C06: a CEA is ignored unless the connection exists and is CONNECTED (the answer is awaited) *)
+Theorem C06_cea_ignored_unless_connected n cid m :
+  (forall c, get_conn n cid = Some c -> c_state c <> SConnected) -> recv_cea n cid m = (n, []).
+Proof.
+  intros H. unfold recv_cea. destruct (get_conn n cid) as [c0|]; [|reflexivity].
+  specialize (H c0 eq_refl). destruct (c_state c0); try reflexivity. congruence.
+Qed.
+
+Lemma close_conn_closed n cid c r :
+  get_conn n cid = Some c ->
+  snd (close_conn n cid r) = [OClose cid r] /\ get_conn (fst (close_conn n cid r)) cid = None.
+Proof.
+  intros Hc. split; [rewrite (close_conn_some n cid r c Hc); reflexivity|].
+  rewrite close_conn_get, Nat.eqb_refl. reflexivity.
+Qed.
+
+(* C06: a CEA whose Result-Code is not 2001, arriving on a CONNECTED connection, closes it (CER_REJECTED) *)
+Theorem C06_cea_rejected n cid c m :
+  get_conn n cid = Some c -> c_state c = SConnected ->
   m_result m <> Present 2001 ->
   recv_cea n cid m = close_conn n cid R_CER_REJECTED /\
-  (forall c, get_conn n cid = Some c -> snd (recv_cea n cid m) = [OClose cid R_CER_REJECTED]).
+  snd (recv_cea n cid m) = [OClose cid R_CER_REJECTED] /\
+  get_conn (fst (recv_cea n cid m)) cid = None.
 Proof.
-  intros Hr.
+  intros Hc Hs Hr.
   assert (H : recv_cea n cid m = close_conn n cid R_CER_REJECTED).
-  { unfold recv_cea. destruct (m_result m) as [| |z]; try reflexivity.
-    destruct z as [|q|q]; try reflexivity.
-    do 11 (try (destruct q as [q|q|]; try reflexivity)). congruence. }
-  split; [exact H|]. intros c Hc. rewrite H. unfold close_conn. rewrite Hc. reflexivity.
+  { unfold recv_cea. rewrite Hc, Hs. cbn [cstate_eqb negb]. apply cea_result_other, Hr. }
+  split; [exact H|]. rewrite H. apply (close_conn_closed n cid c), Hc.
+Qed.
+
+(* C06: a CEA 2001 whose Origin-Host is not the peer that was dialled closes the connection (CER_REJECTED) *)
+Theorem C06_cea_wrong_identity n cid c m h :
+  get_conn n cid = Some c -> c_state c = SConnected ->
+  m_result m = Present 2001 -> m_origin m = Present h ->
+  c_node_name c <> "" -> h <> c_node_name c ->
+  recv_cea n cid m = close_conn n cid R_CER_REJECTED /\
+  snd (recv_cea n cid m) = [OClose cid R_CER_REJECTED] /\
+  get_conn (fst (recv_cea n cid m)) cid = None.
+Proof.
+  intros Hc Hs Hr Ho Hnm Hh.
+  assert (H : recv_cea n cid m = close_conn n cid R_CER_REJECTED).
+  { unfold recv_cea. rewrite Hc, Hs, Hr, Ho. cbn [cstate_eqb negb pres_get]. cbv iota.
+    apply String.eqb_neq in Hnm, Hh. rewrite Hnm, Hh. reflexivity. }
+  split; [exact H|]. rewrite H. apply (close_conn_closed n cid c), Hc.
+Qed.
+
+(* C06: a CEA 2001 without Origin-Host changes nothing (no partial update of the connection) *)
+Theorem C06_cea_without_origin n cid m :
+  m_result m = Present 2001 -> pres_get (m_origin m) = None -> recv_cea n cid m = (n, []).
+Proof.
+  intros Hr Ho. unfold recv_cea. destruct (get_conn n cid) as [c0|]; [|reflexivity].
+  destruct (negb (cstate_eqb (c_state c0) SConnected)); [reflexivity|]. rewrite Hr, Ho. reflexivity.
+Qed.
+
+(* C06: a CEA 2001 of the dialled peer, arriving on a CONNECTED connection, makes it READY; nothing is sent *)
+Theorem C06_cea_accepted n cid c m h :
+  get_conn n cid = Some c -> c_state c = SConnected ->
+  m_result m = Present 2001 -> m_origin m = Present h ->
+  (c_node_name c = "" \/ h = c_node_name c) ->
+  snd (recv_cea n cid m) = [] /\
+  exists c', get_conn (fst (recv_cea n cid m)) cid = Some c' /\ c_state c' = SReady /\ c_host c' = h /\
+             c_node_name c' = c_node_name c /\
+             c_auth c' = inter_z (node_auth n) (m_auth m) /\ c_acct c' = inter_z (node_acct n) (m_acct m).
+Proof.
+  intros Hc Hs Hr Ho Hid.
+  assert (H : recv_cea n cid m = (cea_accept n cid m h, [])).
+  { unfold recv_cea. rewrite Hc, Hs, Hr, Ho. cbn [cstate_eqb negb pres_get]. cbv iota.
+    assert (E : negb (String.eqb (c_node_name c) "") && negb (String.eqb h (c_node_name c)) = false).
+    { apply Bool.andb_false_iff. destruct Hid as [E|E]; [left|right]; apply Bool.negb_false_iff, String.eqb_eq, E. }
+    rewrite E. reflexivity. }
+  rewrite H. cbn [fst snd]. split; [reflexivity|]. unfold cea_accept.
+  unfold get_conn at 1. rewrite flag_ready_conns, assign_peer_conn_conns.
+  rewrite find_upd by solve_idp. rewrite Nat.eqb_refl.
+  match goal with |- context [List.find _ (n_conns ?x)] => fold (get_conn x cid) end.
+  rewrite get_conn_upd by solve_idp. rewrite Nat.eqb_refl, Hc. cbn [option_map].
+  eexists. split; [reflexivity|]. cbn. repeat split; reflexivity.
 Qed.
 
 (* ---- effective timers -------------------------------------------------------------------------- *)
@@ -853,53 +1408,46 @@ Theorem C18_newcomers_refused n ds h :
 Proof. intros Hs. cbn [step]. rewrite Hs. split; reflexivity. Qed.
 
 (* ---- EStopFinish ------------------------------------------------------------------------------ *)
-Fixpoint close_all (cids : list nat) (n : node) (acc : list output) : node * list output :=
+Fixpoint shutdown_all (cids : list nat) (n : node) (acc : list output) : node * list output :=
   match cids with
   | [] => (n, acc)
-  | c :: r => let '(n', o') := close_conn n c R_SHUTDOWN in close_all r n' (acc ++ o')%list
+  | c :: r => let '(n', o') := close_conn n c R_SHUTDOWN in shutdown_all r n' (acc ++ o')%list
   end.
 
 Lemma step_stop_finish n ds tc te :
   step n ds (EStopFinish tc te) =
   let n0 := set_time n tc (n_io_deadline n) in
-  let '(n1, o1) := close_all (List.map c_id (n_conns n0)) n0 [] in
+  let '(n1, o1) := shutdown_all (List.map c_id (n_conns n0)) n0 [] in
   (set_time (set_apps n1 (List.map (fun a => set_awaiting a []) (n_apps n1))) te (n_io_deadline n1), o1).
 Proof. reflexivity. Qed.
 
-Lemma close_all_conns cids : forall n acc x,
-  List.In x (n_conns (fst (close_all cids n acc))) -> List.In x (n_conns n) /\ ~ List.In (c_id x) cids.
+Lemma shutdown_all_conns cids : forall n acc x,
+  List.In x (n_conns (fst (shutdown_all cids n acc))) -> List.In x (n_conns n) /\ ~ List.In (c_id x) cids.
 Proof.
   induction cids as [|a r IH]; intros n acc x Hx; [cbn in Hx; tauto|].
-  cbn [close_all] in Hx. pose proof (close_conn_conns n a R_SHUTDOWN) as Hc.
+  cbn [shutdown_all] in Hx. pose proof (close_conn_conns n a R_SHUTDOWN) as Hc.
   destruct (close_conn n a R_SHUTDOWN) as [n' o']. cbn [fst] in Hc.
   apply IH in Hx. destruct Hx as [Hin Hnr]. rewrite Hc in Hin. apply List.filter_In in Hin.
   destruct Hin as [Hin Hne]. split; [exact Hin|]. intros [Ha|Hr]; [|tauto].
   subst a. rewrite Nat.eqb_refl in Hne. discriminate.
 Qed.
 
-Lemma close_all_acc cids : forall n acc x, List.In x acc -> List.In x (snd (close_all cids n acc)).
+Lemma shutdown_all_acc cids : forall n acc x, List.In x acc -> List.In x (snd (shutdown_all cids n acc)).
 Proof.
   induction cids as [|a r IH]; intros n acc x Hx; [exact Hx|].
-  cbn [close_all]. destruct (close_conn n a R_SHUTDOWN) as [n' o']. apply IH.
+  cbn [shutdown_all]. destruct (close_conn n a R_SHUTDOWN) as [n' o']. apply IH.
   apply List.in_or_app. left. exact Hx.
 Qed.
 
-Lemma find_in_some (l : list conn) c :
-  List.In c l -> exists c', List.find (fun x => Nat.eqb (c_id x) (c_id c)) l = Some c'.
-Proof.
-  intros Hin. destruct (List.find (fun x => Nat.eqb (c_id x) (c_id c)) l) eqn:E; [eauto|].
-  exfalso. apply (List.find_none _ _ E) in Hin. rewrite Nat.eqb_refl in Hin. discriminate.
-Qed.
-
-Lemma close_all_out cids : forall n acc c,
+Lemma shutdown_all_out cids : forall n acc c,
   List.In (c_id c) cids -> List.In c (n_conns n) ->
-  List.In (OClose (c_id c) R_SHUTDOWN) (snd (close_all cids n acc)).
+  List.In (OClose (c_id c) R_SHUTDOWN) (snd (shutdown_all cids n acc)).
 Proof.
   induction cids as [|a r IH]; intros n acc c Hj Hc; [destruct Hj|].
-  cbn [close_all]. pose proof (close_conn_conns n a R_SHUTDOWN) as Hcc.
+  cbn [shutdown_all]. pose proof (close_conn_conns n a R_SHUTDOWN) as Hcc.
   destruct (Nat.eq_dec a (c_id c)) as [->|Hne].
   - destruct (find_in_some _ c Hc) as [c' Hc']. rewrite (close_conn_some n _ _ c' Hc').
-    apply close_all_acc. apply List.in_or_app. right. left. reflexivity.
+    apply shutdown_all_acc. apply List.in_or_app. right. left. reflexivity.
   - destruct (close_conn n a R_SHUTDOWN) as [n' o']. cbn [fst] in Hcc. apply IH.
     + destruct Hj; [congruence|assumption].
     + rewrite Hcc. apply List.filter_In. split; [exact Hc|].
@@ -913,9 +1461,9 @@ Theorem C18_all_closed n ds tc te :
 Proof.
   rewrite step_stop_finish. cbn zeta.
   set (n0 := set_time n tc (n_io_deadline n)).
-  pose proof (close_all_conns (List.map c_id (n_conns n0)) n0 []) as H1.
-  pose proof (close_all_out (List.map c_id (n_conns n0)) n0 []) as H2.
-  destruct (close_all (List.map c_id (n_conns n0)) n0 []) as [n1 o1]. cbn [fst snd] in *.
+  pose proof (shutdown_all_conns (List.map c_id (n_conns n0)) n0 []) as H1.
+  pose proof (shutdown_all_out (List.map c_id (n_conns n0)) n0 []) as H2.
+  destruct (shutdown_all (List.map c_id (n_conns n0)) n0 []) as [n1 o1]. cbn [fst snd] in *.
   cbn [fst snd n_conns set_time set_apps]. split.
   - destruct (n_conns n1) as [|x xs] eqn:E; [reflexivity|]. exfalso.
     destruct (H1 x (or_introl eq_refl)) as [Hin Hnot]. apply Hnot, List.in_map, Hin.
@@ -1061,47 +1609,55 @@ Qed.
 (* C06_ready_only_by_ce: a relation between a node and its successors                  *)
 (* ================================================================================== *)
 
+(* the states in which no capabilities exchange is awaited or completed *)
+Definition inert (s : cstate) : bool :=
+  match s with SConnecting | SDisconnecting | SClosing | SClosed => true | _ => false end.
+
 (* per connection: the direction is kept; it is ready afterwards only if it was ready before (escape P);
-   a CONNECTED connection stays CONNECTED (escape Q) *)
-Definition crel (P Q : nat -> Prop) (j : nat) (c c' : conn) : Prop :=
+   a CONNECTED connection stays CONNECTED (escape Q); an inert connection stays inert (escape R) *)
+Definition crel (P Q R : nat -> Prop) (j : nat) (c c' : conn) : Prop :=
   c_recv c' = c_recv c /\
   (is_ready_state (c_state c') = true -> is_ready_state (c_state c) = true \/ P j) /\
-  (c_state c = SConnected -> c_state c' = SConnected \/ Q j).
+  (c_state c = SConnected -> c_state c' = SConnected \/ Q j) /\
+  (inert (c_state c) = true -> inert (c_state c') = true \/ R j).
 
 (* peers keep their names, connection numbers only grow, and every connection afterwards is either new
    (numbered from the old counter on) or related by crel to the connection of that number before *)
-Definition evolves (P Q : nat -> Prop) (n n' : node) : Prop :=
+Definition evolves (P Q R : nat -> Prop) (n n' : node) : Prop :=
   pnames n' = pnames n /\ (n_next_cid n <= n_next_cid n')%nat /\
   forall j c', get_conn n' j = Some c' ->
-    (n_next_cid n <= j < n_next_cid n')%nat \/ exists c, get_conn n j = Some c /\ crel P Q j c c'.
+    (n_next_cid n <= j < n_next_cid n')%nat \/ exists c, get_conn n j = Some c /\ crel P Q R j c c'.
 
 Definition NoP : nat -> Prop := fun _ => False.
-Notation ev0 := (evolves NoP NoP).
+Notation ev0 := (evolves NoP NoP NoP).
 
-Lemma crel_refl P Q j c : crel P Q j c c.
+Lemma crel_refl P Q R j c : crel P Q R j c c.
 Proof. unfold crel. auto. Qed.
 
-Lemma crel_trans P Q j a b c : crel P Q j a b -> crel P Q j b c -> crel P Q j a c.
+Lemma crel_trans P Q R j a b c : crel P Q R j a b -> crel P Q R j b c -> crel P Q R j a c.
 Proof.
-  unfold crel. intros [H1 [H2 H3]] [G1 [G2 G3]]. split; [congruence|]. split.
+  unfold crel. intros [H1 [H2 [H3 H4]]] [G1 [G2 [G3 G4]]]. split; [congruence|]. split; [|split].
   - intros Hr. destruct (G2 Hr) as [Hb|Hp]; [apply H2, Hb|right; exact Hp].
   - intros Hs. destruct (H3 Hs) as [Hb|Hq]; [apply G3, Hb|right; exact Hq].
+  - intros Hs. destruct (H4 Hs) as [Hb|Hq]; [apply G4, Hb|right; exact Hq].
 Qed.
 
-Lemma crel_weaken (P Q P' Q' : nat -> Prop) j a b :
-  (forall j, P j -> P' j) -> (forall j, Q j -> Q' j) -> crel P Q j a b -> crel P' Q' j a b.
+Lemma crel_weaken (P Q R P' Q' R' : nat -> Prop) j a b :
+  (forall j, P j -> P' j) -> (forall j, Q j -> Q' j) -> (forall j, R j -> R' j) ->
+  crel P Q R j a b -> crel P' Q' R' j a b.
 Proof.
-  unfold crel. intros HP HQ [H1 [H2 H3]]. split; [exact H1|]. split.
+  unfold crel. intros HP HQ HR [H1 [H2 [H3 H4]]]. split; [exact H1|]. split; [|split].
   - intros Hr. destruct (H2 Hr); auto.
   - intros Hs. destruct (H3 Hs); auto.
+  - intros Hs. destruct (H4 Hs); auto.
 Qed.
 
-Lemma ev_refl P Q n : evolves P Q n n.
+Lemma ev_refl P Q R n : evolves P Q R n n.
 Proof.
   split; [reflexivity|]. split; [lia|]. intros j c' H. right. exists c'. split; [exact H|apply crel_refl].
 Qed.
 
-Lemma ev_trans P Q a b c : evolves P Q a b -> evolves P Q b c -> evolves P Q a c.
+Lemma ev_trans P Q R a b c : evolves P Q R a b -> evolves P Q R b c -> evolves P Q R a c.
 Proof.
   intros [H1 [H2 H3]] [G1 [G2 G3]]. split; [congruence|]. split; [lia|].
   intros j c'' Hc. destruct (G3 j c'' Hc) as [Hle|[c' [Hc' Hr']]]; [left; lia|].
@@ -1109,27 +1665,28 @@ Proof.
   right. exists c0. split; [exact Hc0|]. eapply crel_trans; eassumption.
 Qed.
 
-Lemma ev_weaken (P Q P' Q' : nat -> Prop) a b :
-  (forall j, P j -> P' j) -> (forall j, Q j -> Q' j) -> evolves P Q a b -> evolves P' Q' a b.
+Lemma ev_weaken (P Q R P' Q' R' : nat -> Prop) a b :
+  (forall j, P j -> P' j) -> (forall j, Q j -> Q' j) -> (forall j, R j -> R' j) ->
+  evolves P Q R a b -> evolves P' Q' R' a b.
 Proof.
-  intros HP HQ [H1 [H2 H3]]. split; [exact H1|]. split; [exact H2|].
+  intros HP HQ HR [H1 [H2 H3]]. split; [exact H1|]. split; [exact H2|].
   intros j c' Hc. destruct (H3 j c' Hc) as [Hle|[c [Hc0 Hr]]]; [left; exact Hle|].
   right. exists c. split; [exact Hc0|]. eapply crel_weaken; eassumption.
 Qed.
 
-Lemma ev0_any P Q a b : ev0 a b -> evolves P Q a b.
+Lemma ev0_any P Q R a b : ev0 a b -> evolves P Q R a b.
 Proof. apply ev_weaken; intros j []. Qed.
 
-Lemma ev_same P Q n n' :
-  n_conns n' = n_conns n -> pnames n' = pnames n -> (n_next_cid n <= n_next_cid n')%nat -> evolves P Q n n'.
+Lemma ev_same P Q R n n' :
+  n_conns n' = n_conns n -> pnames n' = pnames n -> (n_next_cid n <= n_next_cid n')%nat -> evolves P Q R n n'.
 Proof.
   intros Hc Hp Hn. split; [exact Hp|]. split; [exact Hn|]. intros j c' H. right. exists c'.
   split; [|apply crel_refl]. rewrite <- H. apply get_conn_ext. symmetry. exact Hc.
 Qed.
 
-Lemma ev_cupd P Q n n' i F :
+Lemma ev_cupd P Q R n n' i F :
   pnames n' = pnames n -> (n_next_cid n <= n_next_cid n')%nat -> cupd n n' i F ->
-  (forall c, get_conn n i = Some c -> crel P Q i c (F c)) -> evolves P Q n n'.
+  (forall c, get_conn n i = Some c -> crel P Q R i c (F c)) -> evolves P Q R n n'.
 Proof.
   intros Hp Hn Hu HF. split; [exact Hp|]. split; [exact Hn|]. intros j c' H. right.
   rewrite Hu in H. destruct (Nat.eqb j i) eqn:E.
@@ -1138,12 +1695,12 @@ Proof.
   - exists c'. split; [exact H|apply crel_refl].
 Qed.
 
-Lemma ev_wframe_cupd P Q n n' i F :
+Lemma ev_wframe_cupd P Q R n n' i F :
   wframe n n' -> cupd n n' i F ->
-  (forall c, get_conn n i = Some c -> crel P Q i c (F c)) -> evolves P Q n n'.
+  (forall c, get_conn n i = Some c -> crel P Q R i c (F c)) -> evolves P Q R n n'.
 Proof. intros [Hp [Hn _]] Hu HF. eapply ev_cupd; [exact Hp|lia|exact Hu|exact HF]. Qed.
 
-Lemma ev_close P Q n cid r : evolves P Q n (fst (close_conn n cid r)).
+Lemma ev_close P Q R n cid r : evolves P Q R n (fst (close_conn n cid r)).
 Proof.
   destruct (close_conn_wframe n cid r) as [Hp [Hn _]]. split; [exact Hp|]. split; [lia|].
   intros j c' H. rewrite close_conn_get in H. destruct (Nat.eqb j cid); [discriminate|].
@@ -1155,35 +1712,36 @@ Ltac solve_crel :=
   intros c H; unfold crel, wdmark, qout, bump; cbn;
   destruct (c_state c) eqn:E; cbn; rewrite ?E; cbn; repeat split; auto; try (intros; discriminate).
 
-Lemma ev_upd P Q n i F :
-  idp F -> (forall c, get_conn n i = Some c -> crel P Q i c (F c)) ->
-  evolves P Q n (set_conns n (upd_conn (n_conns n) i F)).
+Lemma ev_upd P Q R n i F :
+  idp F -> (forall c, get_conn n i = Some c -> crel P Q R i c (F c)) ->
+  evolves P Q R n (set_conns n (upd_conn (n_conns n) i F)).
 Proof. intros HF HR. eapply ev_cupd; [reflexivity|apply Nat.le_refl|apply cupd_upd, HF|exact HR]. Qed.
 
-Lemma ev_send_message P Q n cid m : evolves P Q n (fst (send_message n cid m)).
+Lemma ev_send_message P Q R n cid m : evolves P Q R n (fst (send_message n cid m)).
 Proof.
   eapply ev_wframe_cupd; [apply frame_wframe, send_message_frame|apply send_message_cupd|]. solve_crel.
 Qed.
 
-Lemma ev_send_cer P Q n cid : evolves P Q n (fst (send_cer n cid)).
+Lemma ev_send_cer P Q R n cid : evolves P Q R n (fst (send_cer n cid)).
 Proof.
   destruct (send_cer_spec n cid) as [m [_ [_ [_ [Hu Hf]]]]].
   eapply ev_wframe_cupd; [apply frame_wframe, Hf|exact Hu|]. solve_crel.
 Qed.
 
-Lemma ev_send_dwr P Q n cid : evolves P Q n (fst (send_dwr n cid)).
+Lemma ev_send_dwr P Q R n cid : evolves P Q R n (fst (send_dwr n cid)).
 Proof.
   destruct (send_dwr_spec n cid) as [m [_ [_ [_ [Hu Hf]]]]].
   eapply ev_wframe_cupd; [apply frame_wframe, Hf|exact Hu|]. solve_crel.
 Qed.
 
-Lemma ev_send_dpr P Q n cid c :
-  get_conn n cid = Some c -> is_ready_state (c_state c) = true -> evolves P Q n (fst (send_dpr n cid)).
+Lemma ev_send_dpr P Q R n cid c :
+  get_conn n cid = Some c -> is_ready_state (c_state c) = true -> evolves P Q R n (fst (send_dpr n cid)).
 Proof.
   intros Hc Hr. destruct (send_dpr_spec n cid) as [m [_ [_ [_ [Hu Hf]]]]].
   eapply ev_wframe_cupd; [apply frame_wframe, Hf|exact Hu|].
   intros c0 Hc0. rewrite Hc in Hc0. inversion Hc0; subst c0. unfold crel, qout, bump. cbn.
-  split; [reflexivity|]. split; [discriminate|]. intros Hs. rewrite Hs in Hr. discriminate.
+  split; [reflexivity|]. split; [discriminate|]. split; [|intros _; left; reflexivity].
+  intros Hs. rewrite Hs in Hr. discriminate.
 Qed.
 
 Lemma ev_flush_one n j : ev0 n (fst (flush_one n j)).
@@ -1195,7 +1753,7 @@ Proof.
   destruct (c_out c); [exact H1|].
   destruct (cstate_eqb (c_state c) SClosing); [|exact H1].
   match goal with |- context [close_conn ?a ?b ?r] =>
-    pose proof (ev_close NoP NoP a b r) as H2; destruct (close_conn a b r) end.
+    pose proof (ev_close NoP NoP NoP a b r) as H2; destruct (close_conn a b r) end.
   cbn [fst] in *. eapply ev_trans; eassumption.
 Qed.
 
@@ -1228,15 +1786,25 @@ Proof.
   destruct (timers_all n1 r) as [n2 o2]. cbn [fst] in *. eapply ev_trans; eassumption.
 Qed.
 
-Lemma ev_add P Q n n' c :
+Lemma ev_add P Q R n n' c :
   n_conns n' = n_conns n ++ [c] -> c_id c = n_next_cid n -> n_next_cid n' = S (n_next_cid n) ->
-  pnames n' = pnames n -> evolves P Q n n'.
+  pnames n' = pnames n -> evolves P Q R n n'.
 Proof.
   intros Hc Hid Hn Hp. split; [exact Hp|]. split; [lia|]. intros j c' H.
   unfold get_conn in H. rewrite Hc, find_app_conn in H. fold (get_conn n j) in H.
   destruct (get_conn n j) as [x|] eqn:Hx.
   - right. exists x. split; [reflexivity|]. inversion H; subst. apply crel_refl.
   - left. destruct (Nat.eqb (c_id c) j) eqn:E; [|discriminate]. apply Nat.eqb_eq in E. lia.
+Qed.
+
+(* an update of a connection numbered from the old counter on *)
+Lemma ev_fresh_upd P Q R n n3 i F :
+  evolves P Q R n n3 -> (n_next_cid n <= i < n_next_cid n3)%nat -> idp F ->
+  evolves P Q R n (set_conns n3 (upd_conn (n_conns n3) i F)).
+Proof.
+  intros [H1 [H2 H3]] Hi HF. split; [exact H1|]. split; [exact H2|]. intros j c' Hc'.
+  destruct (Nat.eq_dec j i) as [->|Hne]; [left; exact Hi|].
+  rewrite get_conn_upd_other in Hc' by assumption. apply H3, Hc'.
 Qed.
 
 Lemma ev_connect_to_peer n name h0 res : ev0 n (fst (connect_to_peer n name h0 res)).
@@ -1246,15 +1814,15 @@ Proof.
   set (cid := n_next_cid n). set (c := new_conn cid false SConnecting name (n_now n) h0).
   match goal with |- context [close_conn ?x cid R_SOCKET_FAIL] => set (n3 := x) end.
   assert (H3 : ev0 n n3).
-  { apply (ev_add _ _ n n3 c); try reflexivity. unfold pnames, n3. cbn [n_peers set_peers].
+  { apply (ev_add _ _ _ n n3 c); try reflexivity. unfold pnames, n3. cbn [n_peers set_peers].
     apply upd_peer_names. reflexivity. }
   destruct res.
-  - assert (H4 : ev0 n3 (set_conns n3 (upd_conn (n_conns n3) cid (fun c => set_cstate c SConnected))))
-      by (apply ev_upd; [solve_idp|solve_crel]).
-    match goal with |- context [send_cer ?x cid] => pose proof (ev_send_cer NoP NoP x cid) as H5;
+  - assert (H4 : ev0 n (set_conns n3 (upd_conn (n_conns n3) cid (fun c => set_cstate c SConnected))))
+      by (apply ev_fresh_upd; [exact H3|cbn; unfold cid; lia|solve_idp]).
+    match goal with |- context [send_cer ?x cid] => pose proof (ev_send_cer NoP NoP NoP x cid) as H5;
       destruct (send_cer x cid) as [n5 o] end.
-    cbn [fst] in *. eapply ev_trans; [exact H3|]. eapply ev_trans; eassumption.
-  - pose proof (ev_close NoP NoP n3 cid R_SOCKET_FAIL) as H4.
+    cbn [fst] in *. eapply ev_trans; eassumption.
+  - pose proof (ev_close NoP NoP NoP n3 cid R_SOCKET_FAIL) as H4.
     destruct (close_conn n3 cid R_SOCKET_FAIL) as [n4 o]. cbn [fst] in *. eapply ev_trans; eassumption.
   - exact H3.
 Qed.
@@ -1311,6 +1879,14 @@ Definition ce_ok (pn : list string) (b : bool) (m : msg) : Prop :=
 Definition PA (cid : nat) (pn : list string) (ms : list msg) : nat -> Prop :=
   fun j => j = cid /\ exists m, List.In m ms /\ ce_any pn m.
 
+(* a CER of a configured peer *)
+Definition cer_ok (pn : list string) (m : msg) : Prop :=
+  m_cmd m = CE /\ m_req m = true /\ exists h, m_origin m = Present h /\ List.In h pn.
+Definition RA (cid : nat) (pn : list string) (ms : list msg) : nat -> Prop :=
+  fun j => j = cid /\ exists m, List.In m ms /\ cer_ok pn m.
+Lemma cer_ok_any pn m : cer_ok pn m -> ce_any pn m.
+Proof. intros [H1 [H2 H3]]. split; [exact H1|]. left. auto. Qed.
+
 Lemma ce_ok_any pn b m : ce_ok pn b m -> ce_any pn m.
 Proof. unfold ce_ok, ce_any. intros [H1 H2]. split; [exact H1|]. destruct b; auto. Qed.
 
@@ -1326,22 +1902,22 @@ Proof.
   apply (List.find_none _ _ Hn) in Hin. subst h. rewrite String.eqb_refl in Hin. discriminate.
 Qed.
 
-Lemma ev_upd_keep P Q n i F :
+Lemma ev_upd_keep P Q R n i F :
   idp F -> (forall c, c_recv (F c) = c_recv c /\ c_state (F c) = c_state c) ->
-  evolves P Q n (set_conns n (upd_conn (n_conns n) i F)).
+  evolves P Q R n (set_conns n (upd_conn (n_conns n) i F)).
 Proof.
   intros HF HK. apply ev_upd; [exact HF|]. intros c _. destruct (HK c) as [H1 H2].
   unfold crel. rewrite H1, H2. auto.
 Qed.
 
-Lemma ev_upd_escape (P Q : nat -> Prop) n i F :
-  idp F -> (forall c, c_recv (F c) = c_recv c) -> P i -> Q i ->
-  evolves P Q n (set_conns n (upd_conn (n_conns n) i F)).
+Lemma ev_upd_escape (P Q R : nat -> Prop) n i F :
+  idp F -> (forall c, c_recv (F c) = c_recv c) -> P i -> Q i -> R i ->
+  evolves P Q R n (set_conns n (upd_conn (n_conns n) i F)).
 Proof.
-  intros HF HK HP HQ. apply ev_upd; [exact HF|]. intros c _. unfold crel. rewrite HK. auto.
+  intros HF HK HP HQ HR. apply ev_upd; [exact HF|]. intros c _. unfold crel. rewrite HK. auto.
 Qed.
 
-Lemma ev_assign P Q n cid : evolves P Q n (assign_peer_conn n cid).
+Lemma ev_assign P Q R n cid : evolves P Q R n (assign_peer_conn n cid).
 Proof.
   unfold assign_peer_conn. destruct (get_conn n cid) as [c|]; [|apply ev_refl].
   destruct (String.eqb (c_host c) ""); [apply ev_refl|].
@@ -1350,23 +1926,23 @@ Proof.
     unfold pnames; cbn [n_peers set_peers set_tables]; apply upd_peer_names; reflexivity.
 Qed.
 
-Lemma ev_flag_ready (P Q : nat -> Prop) n cid : P cid -> Q cid -> evolves P Q n (flag_ready n cid).
+Lemma ev_flag_ready (P Q R : nat -> Prop) n cid : P cid -> Q cid -> R cid -> evolves P Q R n (flag_ready n cid).
 Proof.
-  intros HP HQ. unfold flag_ready.
-  eapply ev_trans; [apply (ev_upd_escape P Q n cid (fun c => set_cstate c SReady)); auto; solve_idp|].
+  intros HP HQ HR. unfold flag_ready.
+  eapply ev_trans; [apply (ev_upd_escape P Q R n cid (fun c => set_cstate c SReady)); auto; solve_idp|].
   apply ev_same; reflexivity.
 Qed.
 
 Lemma ev_recv_dwa n cid : ev0 n (fst (recv_dwa n cid)).
 Proof. unfold recv_dwa. cbn [fst]. apply ev_upd; [solve_idp|solve_crel]. Qed.
 
-Lemma ev_recv_dpr P n cid m : evolves P (Qc cid) n (fst (recv_dpr n cid m)).
+Lemma ev_recv_dpr P R n cid m : evolves P (Qc cid) R n (fst (recv_dpr n cid m)).
 Proof.
   unfold recv_dpr. eapply ev_trans; [|apply ev_send_message].
   set (n1 := set_conns n _).
-  assert (H1 : evolves P (Qc cid) n n1).
+  assert (H1 : evolves P (Qc cid) R n n1).
   { apply ev_upd; [solve_idp|]. intros c _. unfold crel. cbn. split; [reflexivity|].
-    split; [discriminate|]. intros _. right. reflexivity. }
+    split; [discriminate|]. split; [intros _; right; reflexivity|intros _; left; reflexivity]. }
   eapply ev_trans; [exact H1|].
   destruct (get_conn n1 cid) as [c|]; [|apply ev_refl].
   destruct (find_conn_peer n1 c); [|apply ev_refl].
@@ -1374,17 +1950,17 @@ Proof.
   unfold pnames. cbn [n_peers set_peers]. apply upd_peer_names. reflexivity.
 Qed.
 
-Lemma ev_recv_dpa P n cid : evolves P (Qc cid) n (fst (recv_dpa n cid)).
+Lemma ev_recv_dpa P R n cid : evolves P (Qc cid) R n (fst (recv_dpa n cid)).
 Proof.
   unfold recv_dpa. set (n1 := set_conns n _).
-  assert (H1 : evolves P (Qc cid) n n1).
+  assert (H1 : evolves P (Qc cid) R n n1).
   { apply ev_upd; [solve_idp|]. intros c _. unfold crel. cbn. split; [reflexivity|].
-    split; [discriminate|]. intros _. right. reflexivity. }
+    split; [discriminate|]. split; [intros _; right; reflexivity|intros _; left; reflexivity]. }
   destruct (get_conn n1 cid) as [c|]; [|exact H1].
   destruct (c_out c); [|exact H1]. eapply ev_trans; [exact H1|apply ev_close].
 Qed.
 
-Lemma ev_recv_app_request P Q n cid m : evolves P Q n (fst (recv_app_request n cid m)).
+Lemma ev_recv_app_request P Q R n cid m : evolves P Q R n (fst (recv_app_request n cid m)).
 Proof.
   unfold recv_app_request. destruct (get_conn n cid) as [c|]; [|apply ev_refl].
   destruct (m_drealm m); try apply ev_send_message.
@@ -1394,7 +1970,7 @@ Proof.
   cbn [fst]. apply ev_same; reflexivity.
 Qed.
 
-Lemma ev_recv_app_answer P Q n m : evolves P Q n (fst (recv_app_answer n m)).
+Lemma ev_recv_app_answer P Q R n m : evolves P Q R n (fst (recv_app_answer n m)).
 Proof.
   unfold recv_app_answer.
   match goal with |- context [List.find ?f ?l] => destruct (List.find f l) as [[[? ?] i]|] end;
@@ -1403,58 +1979,113 @@ Proof.
   destruct (mem_z (m_hbh m) (List.map fst (a_waiting a))); cbn [fst]; apply ev_same; reflexivity.
 Qed.
 
-Lemma ev_recv_cer (Q : nat -> Prop) n cid m :
-  m_cmd m = CE -> m_req m = true -> Q cid ->
-  evolves (PA cid (pnames n) [m]) Q n (fst (recv_cer n cid m)).
+Lemma ev_mclose_all P Q R l : forall n r, evolves P Q R n (fst (close_all n l r)).
 Proof.
-  intros Hk Hr HQ. unfold recv_cer. destruct (m_origin m) as [| |host] eqn:Ho; cbn [pres_get]; try apply ev_refl.
-  destruct (get_peer n host) as [p|] eqn:Hp.
-  - assert (HP : PA cid (pnames n) [m] cid).
-    { split; [reflexivity|]. exists m. split; [left; reflexivity|]. split; [exact Hk|]. left.
-      split; [exact Hr|]. exists host. split; [exact Ho|]. eapply get_peer_in, Hp. }
-    set (n1 := set_conns n _).
-    assert (H1 : evolves (PA cid (pnames n) [m]) Q n n1).
-    { apply ev_upd_keep; [solve_idp|]. intros c. destruct (String.eqb (c_node_name c) ""); split; reflexivity. }
-    destruct (inter_z (node_auth n1) (m_auth m)); destruct (inter_z (node_acct n1) (m_acct m));
-      destruct (mem_z APP_RELAY (m_auth m) || mem_z APP_RELAY (m_acct m));
-      try (eapply ev_trans; [exact H1|apply ev_send_message]);
-      (eapply ev_trans; [|apply ev_send_message]);
-      (eapply ev_trans; [|apply ev_flag_ready; [exact HP|exact HQ]]);
-      (eapply ev_trans; [|apply ev_assign]);
-      (eapply ev_trans; [exact H1|]);
-      (apply ev_upd_keep; [solve_idp|intros c; split; reflexivity]).
-  - eapply ev_trans; [|apply ev_send_message].
-    apply ev_upd; [solve_idp|]. intros c _. unfold crel. cbn. split; [reflexivity|].
-    split; [discriminate|]. intros _. right. exact HQ.
+  induction l as [|k l IH]; intros n r; [apply ev_refl|].
+  rewrite mclose_all_cons. pose proof (ev_close P Q R n k r) as H1.
+  destruct (close_conn n k r) as [n1 o1]. specialize (IH n1 r). destruct (close_all n1 l r) as [n2 o2].
+  cbn [fst] in *. eapply ev_trans; eassumption.
 Qed.
 
-Lemma recv_cea_rejected n cid m :
-  m_result m <> Present 2001 -> recv_cea n cid m = close_conn n cid R_CER_REJECTED.
-Proof. intros H. apply C06_cea_rejected, H. Qed.
+Lemma ev_cer_named P Q R n cid h : evolves P Q R n (cer_named n cid h).
+Proof.
+  unfold cer_named, cer_name. apply ev_upd_keep; [solve_idp|].
+  intros c. destruct (String.eqb (c_node_name c) ""); split; reflexivity.
+Qed.
 
-Lemma ev_recv_cea (Q : nat -> Prop) n cid m :
+Lemma ev_cer_negotiate (P Q R : nat -> Prop) n1 cid m h :
+  P cid -> Q cid -> R cid -> evolves P Q R n1 (fst (cer_negotiate n1 cid m h)).
+Proof.
+  intros HP HQ HR. unfold cer_negotiate.
+  destruct (inter_z (node_auth n1) (m_auth m)); destruct (inter_z (node_acct n1) (m_acct m));
+    destruct (mem_z APP_RELAY (m_auth m) || mem_z APP_RELAY (m_acct m));
+    try apply ev_send_message;
+    (eapply ev_trans; [|apply ev_send_message]);
+    (eapply ev_trans; [|apply ev_flag_ready; [exact HP|exact HQ|exact HR]]);
+    (eapply ev_trans; [|apply ev_assign]);
+    (apply ev_upd_keep; [solve_idp|intros c; split; reflexivity]).
+Qed.
+
+Lemma ev_cer_won (P Q R : nat -> Prop) n cid m h :
+  P cid -> Q cid -> R cid -> evolves P Q R n (fst (cer_won n cid m h)).
+Proof.
+  intros HP HQ HR. unfold cer_won.
+  pose proof (ev_mclose_all P Q R (election_rivals n cid h) (cer_named n cid h) R_CLEAN) as H1.
+  destruct (close_all (cer_named n cid h) (election_rivals n cid h) R_CLEAN) as [n1 oel].
+  pose proof (ev_cer_negotiate P Q R n1 cid m h HP HQ HR) as H2.
+  destruct (cer_negotiate n1 cid m h) as [n2 o]. cbn [fst] in *.
+  eapply ev_trans; [apply ev_cer_named|]. eapply ev_trans; eassumption.
+Qed.
+
+Lemma ev_closing (P Q R : nat -> Prop) n cid :
+  Q cid -> evolves P Q R n (set_conns n (upd_conn (n_conns n) cid (fun c => set_cstate c SClosing))).
+Proof.
+  intros HQ. apply ev_upd; [solve_idp|]. intros c _. unfold crel. cbn. split; [reflexivity|].
+  split; [discriminate|]. split; [intros _; right; exact HQ|intros _; left; reflexivity].
+Qed.
+
+Lemma ev_cer_lost (P Q R : nat -> Prop) n cid m h : Q cid -> evolves P Q R n (fst (cer_lost n cid m h)).
+Proof.
+  intros HQ. unfold cer_lost. cbv zeta. eapply ev_trans; [|apply ev_send_message].
+  eapply ev_trans; [apply ev_cer_named|]. apply ev_closing, HQ.
+Qed.
+
+Lemma ev_recv_cer (Q : nat -> Prop) n cid m :
+  m_cmd m = CE -> m_req m = true -> Q cid ->
+  evolves (PA cid (pnames n) [m]) Q (RA cid (pnames n) [m]) n (fst (recv_cer n cid m)).
+Proof.
+  intros Hk Hr HQ. destruct (m_origin m) as [| |host] eqn:Ho;
+    try (unfold recv_cer; rewrite Ho; apply ev_refl).
+  destruct (get_peer n host) as [p|] eqn:Hp.
+  - assert (HR : RA cid (pnames n) [m] cid).
+    { split; [reflexivity|]. exists m. split; [left; reflexivity|]. split; [exact Hk|].
+      split; [exact Hr|]. exists host. split; [exact Ho|]. eapply get_peer_in, Hp. }
+    assert (HP : PA cid (pnames n) [m] cid).
+    { destruct HR as [_ [m' [Hin Hm']]]. split; [reflexivity|]. exists m'. split; [exact Hin|].
+      apply cer_ok_any, Hm'. }
+    rewrite (recv_cer_known n cid m host p Ho Hp).
+    destruct (election_rivals n cid host); [apply ev_cer_won; assumption|].
+    destruct (String.ltb host (g_host (n_cfg n))); [apply ev_cer_won; assumption|apply ev_cer_lost, HQ].
+  - unfold recv_cer. rewrite Ho. cbn [pres_get]. rewrite Hp.
+    eapply ev_trans; [|apply ev_send_message]. apply ev_closing, HQ.
+Qed.
+
+Lemma cea_accept_cupd n cid m host :
+  cupd n (cea_accept n cid m host) cid
+       (fun c => set_cstate (set_cident c (c_node_name c) host (inter_z (node_auth n) (m_auth m))
+                                        (inter_z (node_acct n) (m_acct m))) SReady).
+Proof.
+  intros j. unfold cea_accept. unfold get_conn at 1. rewrite flag_ready_conns, assign_peer_conn_conns.
+  rewrite find_upd by solve_idp.
+  match goal with |- context [List.find _ (n_conns ?x)] => fold (get_conn x j) end.
+  rewrite get_conn_upd by solve_idp.
+  destruct (Nat.eqb j cid); [|reflexivity]. destruct (get_conn n j); reflexivity.
+Qed.
+
+Lemma ev_recv_cea (Q R : nat -> Prop) n cid m :
   m_cmd m = CE -> m_req m = false -> Q cid ->
-  evolves (PA cid (pnames n) [m]) Q n (fst (recv_cea n cid m)).
+  evolves (PA cid (pnames n) [m]) Q R n (fst (recv_cea n cid m)).
 Proof.
   intros Hk Hr HQ.
-  destruct (m_result m) as [| |z] eqn:Er;
-    try (rewrite (recv_cea_rejected n cid m) by (rewrite Er; discriminate); apply ev_close).
-  destruct (Z.eq_dec z 2001) as [->|Hne];
-    [|rewrite (recv_cea_rejected n cid m) by (rewrite Er; congruence); apply ev_close].
-  assert (HP : PA cid (pnames n) [m] cid).
-  { split; [reflexivity|]. exists m. split; [left; reflexivity|]. split; [exact Hk|]. right. auto. }
-  unfold recv_cea. rewrite Er. set (n1 := set_conns n _).
-  assert (H1 : evolves (PA cid (pnames n) [m]) Q n n1)
-    by (apply ev_upd_keep; [solve_idp|intros c; split; reflexivity]).
-  destruct (pres_get (m_origin m)) as [host|]; [|exact H1]. cbn [fst].
-  eapply ev_trans; [|apply ev_flag_ready; [exact HP|exact HQ]].
-  eapply ev_trans; [|apply ev_assign].
-  eapply ev_trans; [exact H1|].
-  apply ev_upd_keep; [solve_idp|intros c; split; reflexivity].
+  destruct (recv_cea_cases n cid m) as [E|[E|[c0 [host [Hc0 [Hs0 [Er [Eo [_ E]]]]]]]]]; rewrite E; cbn [fst].
+  - apply ev_refl.
+  - apply ev_close.
+  - assert (HP : PA cid (pnames n) [m] cid).
+    { split; [reflexivity|]. exists m. split; [left; reflexivity|]. split; [exact Hk|]. right. auto. }
+    eapply ev_cupd; [| |apply cea_accept_cupd|].
+    + unfold cea_accept. cbv zeta.
+      match goal with |- pnames (flag_ready (assign_peer_conn ?x cid) cid) = _ =>
+        destruct (ev_assign NoP NoP NoP x cid) as [Hpn _]; exact Hpn end.
+    + unfold cea_accept. cbv zeta.
+      match goal with |- (_ <= n_next_cid (flag_ready (assign_peer_conn ?x cid) cid))%nat =>
+        destruct (ev_assign NoP NoP NoP x cid) as [_ [Hn _]]; exact Hn end.
+    + intros c Hc. rewrite Hc0 in Hc. inversion Hc; subst c. unfold crel. cbn. rewrite Hs0.
+      split; [reflexivity|]. split; [intros _; right; exact HP|]. split; [intros _; right; exact HQ|].
+      intros H; discriminate H.
 Qed.
 
 Lemma ev_receive_message n cid m :
-  evolves (PA cid (pnames n) [m]) (Qc cid) n (fst (receive_message n cid m)).
+  evolves (PA cid (pnames n) [m]) (Qc cid) (RA cid (pnames n) [m]) n (fst (receive_message n cid m)).
 Proof.
   unfold receive_message. cbv zeta.
   match goal with |- context [send_message ?x cid (answer_of m (Some RC_MISSING_AVP) _)] => set (n0 := x) end.
@@ -1477,7 +2108,8 @@ Proof.
   - apply ev_recv_app_answer.
 Qed.
 
-Lemma ev_dispatch n cid m : evolves (PA cid (pnames n) [m]) (Qc cid) n (fst (dispatch n cid m)).
+Lemma ev_dispatch n cid m :
+  evolves (PA cid (pnames n) [m]) (Qc cid) (RA cid (pnames n) [m]) n (fst (dispatch n cid m)).
 Proof.
   unfold dispatch. destruct (get_conn n cid) as [c|]; [|apply ev_refl].
   destruct (gate_passes c m); [apply ev_receive_message|apply ev_refl].
@@ -1485,8 +2117,11 @@ Qed.
 
 Lemma PA_weaken cid pn ms ms' j : (forall m, List.In m ms -> List.In m ms') -> PA cid pn ms j -> PA cid pn ms' j.
 Proof. intros Hsub [Hj [m [Hin Hm]]]. split; [exact Hj|]. exists m. split; [apply Hsub, Hin|exact Hm]. Qed.
+Lemma RA_weaken cid pn ms ms' j : (forall m, List.In m ms -> List.In m ms') -> RA cid pn ms j -> RA cid pn ms' j.
+Proof. intros Hsub [Hj [m [Hin Hm]]]. split; [exact Hj|]. exists m. split; [apply Hsub, Hin|exact Hm]. Qed.
 
-Lemma ev_dispatch_all ms : forall n cid, evolves (PA cid (pnames n) ms) (Qc cid) n (fst (dispatch_all n cid ms)).
+Lemma ev_dispatch_all ms : forall n cid,
+  evolves (PA cid (pnames n) ms) (Qc cid) (RA cid (pnames n) ms) n (fst (dispatch_all n cid ms)).
 Proof.
   induction ms as [|m r IH]; intros n cid; [apply ev_refl|].
   cbn [dispatch_all]. pose proof (ev_dispatch n cid m) as H1.
@@ -1494,8 +2129,10 @@ Proof.
   destruct (dispatch_all n1 cid r) as [n2 o2]. cbn [fst] in *.
   assert (Hpn : pnames n1 = pnames n) by apply H1. rewrite Hpn in IH.
   eapply ev_trans.
-  - eapply ev_weaken; [| |exact H1]; [|auto]. intros j. apply PA_weaken. intros x [->|[]]. left. reflexivity.
-  - eapply ev_weaken; [| |exact IH]; [|auto]. intros j. apply PA_weaken. intros x Hx. right. exact Hx.
+  - eapply ev_weaken; [| | |exact H1]; [|auto|]; intros j;
+      [apply PA_weaken|apply RA_weaken]; intros x [->|[]]; left; reflexivity.
+  - eapply ev_weaken; [| | |exact IH]; [|auto|]; intros j;
+      [apply PA_weaken|apply RA_weaken]; intros x Hx; right; exact Hx.
 Qed.
 
 (* ---- what one frame can do to a CONNECTED connection ---------------------------------------------- *)
@@ -1527,16 +2164,16 @@ Proof.
     + right. reflexivity.
 Qed.
 
-Lemma co_recv_cea n0 cid pn m :
+Lemma co_recv_cea n0 cid c pn m :
+  get_conn n0 cid = Some c -> c_state c = SConnected -> c_recv c = false ->
   m_cmd m = CE -> m_req m = false ->
   conn_outcome (fst (recv_cea n0 cid m)) cid false pn m.
 Proof.
-  intros Hk Hr.
-  assert (Hrej : m_result m <> Present 2001 -> conn_outcome (fst (recv_cea n0 cid m)) cid false pn m).
-  { intros H. left. rewrite (recv_cea_rejected n0 cid m H), close_conn_get, Nat.eqb_refl. reflexivity. }
-  destruct (m_result m) as [| |z] eqn:Er; try (apply Hrej; discriminate).
-  destruct (Z.eq_dec z 2001) as [->|Hne]; [|apply Hrej; congruence].
-  right. right. split; [exact Hk|]. split; [exact Hr|exact Er].
+  intros Hc Hs Hb Hk Hr.
+  destruct (recv_cea_cases n0 cid m) as [E|[E|[c0 [host [_ [_ [Er _]]]]]]].
+  - rewrite E. right. left. exists c. auto.
+  - rewrite E. left. rewrite close_conn_get, Nat.eqb_refl. reflexivity.
+  - right. right. split; [exact Hk|]. split; [exact Hr|exact Er].
 Qed.
 
 Lemma co_dispatch n cid c m :
@@ -1563,7 +2200,7 @@ Proof.
     apply (co_recv_cer _ cid c m host); auto.
   - (* outbound, CEA *)
     unfold receive_message. cbv zeta. rewrite Hr, Hk. cbn [andb].
-    destruct (m_origin m); apply co_recv_cea; auto.
+    destruct (m_origin m); apply (co_recv_cea _ cid c); auto.
 Qed.
 
 Lemma dispatch_all_dead ms : forall n cid,
@@ -1615,7 +2252,7 @@ Qed.
 
 Lemma ev_step_peer_close n ds cid : ev0 n (fst (step n ds (EPeerClose cid))).
 Proof.
-  cbn [step]. pose proof (ev_close NoP NoP n cid R_GONE) as H1. destruct (close_conn n cid R_GONE) as [n1 o1].
+  cbn [step]. pose proof (ev_close NoP NoP NoP n cid R_GONE) as H1. destruct (close_conn n cid R_GONE) as [n1 o1].
   pose proof (ev_settle' n1 ds) as H2. destruct (settle' n1 ds) as [n2 o2]. cbn [fst] in *. ev_chain.
 Qed.
 
@@ -1628,21 +2265,24 @@ Proof.
   pose proof (ev_settle' n1 ds) as H2. destruct (settle' n1 ds) as [n2 o2]. cbn [fst] in *. ev_chain.
 Qed.
 
-Lemma ev_step_conn_done n ds cid ok : ev0 n (fst (step n ds (EConnDone cid ok))).
+Lemma ev_step_conn_done n ds cid ok : evolves NoP NoP (Qc cid) n (fst (step n ds (EConnDone cid ok))).
 Proof.
   cbn [step]. destruct (get_conn n cid) as [c|]; [|apply ev_refl].
   destruct (cstate_eqb (c_state c) SConnecting); [|apply ev_refl]. destruct ok.
   - set (n1 := set_conns n _).
-    assert (H1 : ev0 n n1) by (apply ev_upd; [solve_idp|solve_crel]).
+    assert (H1 : evolves NoP NoP (Qc cid) n n1).
+    { apply ev_upd; [solve_idp|]. intros x _. unfold crel. cbn. split; [reflexivity|].
+      split; [discriminate|]. split; [auto|]. intros _. right. reflexivity. }
     match goal with |- context [send_cer ?x cid] => set (n2 := x) end.
     assert (H2 : ev0 n1 n2).
     { unfold n2. destruct (find_conn_peer n1 c); [|apply ev_refl].
       apply ev_same; [reflexivity| |apply Nat.le_refl].
       unfold pnames. cbn [n_peers set_peers]. apply upd_peer_names. reflexivity. }
-    clearbody n2. pose proof (ev_send_cer NoP NoP n2 cid) as H3. destruct (send_cer n2 cid) as [n3 o3].
+    clearbody n2. pose proof (ev_send_cer NoP NoP NoP n2 cid) as H3. destruct (send_cer n2 cid) as [n3 o3].
     pose proof (ev_io_iteration n3 ds) as H4. destruct (io_iteration n3 ds) as [[n4 o4] ds4].
-    pose proof (ev_settle' n4 ds4) as H5. destruct (settle' n4 ds4) as [n5 o5]. cbn [fst] in *. ev_chain.
-  - pose proof (ev_close NoP NoP n cid R_FAILED_CONNECT) as H1.
+    pose proof (ev_settle' n4 ds4) as H5. destruct (settle' n4 ds4) as [n5 o5]. cbn [fst] in *.
+    apply (ev0_any NoP NoP (Qc cid)) in H2, H3, H4, H5. ev_chain.
+  - apply ev0_any. pose proof (ev_close NoP NoP NoP n cid R_FAILED_CONNECT) as H1.
     destruct (close_conn n cid R_FAILED_CONNECT) as [n1 o1].
     pose proof (ev_settle' n1 ds) as H2. destruct (settle' n1 ds) as [n2 o2]. cbn [fst] in *. ev_chain.
 Qed.
@@ -1712,7 +2352,7 @@ Proof.
     match goal with |- context [List.find ?f ?l] => destruct (List.find f l) as [c|] end;
       [destruct (is_ready_state (c_state c))|]; cbn [snd]; apply ev_same; reflexivity. }
   destruct (route_answer n m) as [[cid|] n1]; cbn [snd] in H0; [|exact H0].
-  pose proof (ev_send_message NoP NoP n1 cid m) as H1. destruct (send_message n1 cid m) as [n2 o2].
+  pose proof (ev_send_message NoP NoP NoP n1 cid m) as H1. destruct (send_message n1 cid m) as [n2 o2].
   pose proof (ev_settle' n2 ds) as H2. destruct (settle' n2 ds) as [n3 o3]. cbn [fst] in *. ev_chain.
 Qed.
 
@@ -1735,7 +2375,7 @@ Proof.
   match goal with |- context [send_message ?x k ?mm] => set (n3 := x); set (m' := mm) end.
   assert (H3 : ev0 n1 n3) by (apply ev_same; reflexivity).
   clearbody n3 m'.
-  pose proof (ev_send_message NoP NoP n3 k m') as H4. destruct (send_message n3 k m') as [n4 o4].
+  pose proof (ev_send_message NoP NoP NoP n3 k m') as H4. destruct (send_message n3 k m') as [n4 o4].
   pose proof (ev_settle' n4 ds) as H5. destruct (settle' n4 ds) as [n5 o5]. cbn [fst] in *. ev_chain.
 Qed.
 
@@ -1744,7 +2384,7 @@ Proof.
   induction cids as [|a r IH]; intros n acc; [apply ev_refl|].
   cbn [dpr_all]. destruct (get_conn n a) as [cn|] eqn:Hc; [|apply IH].
   destruct (is_ready_state (c_state cn)) eqn:Hr; [|apply IH].
-  pose proof (ev_send_dpr NoP NoP n a cn Hc Hr) as H1. destruct (send_dpr n a) as [n' o'].
+  pose proof (ev_send_dpr NoP NoP NoP n a cn Hc Hr) as H1. destruct (send_dpr n a) as [n' o'].
   specialize (IH n' (acc ++ o')). cbn [fst] in *. ev_chain.
 Qed.
 
@@ -1758,10 +2398,10 @@ Proof.
   pose proof (ev_settle' n1 ds) as H2. destruct (settle' n1 ds) as [n2 o2]. cbn [fst] in *. ev_chain.
 Qed.
 
-Lemma ev_close_all cids : forall n acc, ev0 n (fst (close_all cids n acc)).
+Lemma ev_shutdown_all cids : forall n acc, ev0 n (fst (shutdown_all cids n acc)).
 Proof.
   induction cids as [|a r IH]; intros n acc; [apply ev_refl|].
-  cbn [close_all]. pose proof (ev_close NoP NoP n a R_SHUTDOWN) as H1.
+  cbn [shutdown_all]. pose proof (ev_close NoP NoP NoP n a R_SHUTDOWN) as H1.
   destruct (close_conn n a R_SHUTDOWN) as [n' o']. specialize (IH n' (acc ++ o')). cbn [fst] in *. ev_chain.
 Qed.
 
@@ -1769,8 +2409,8 @@ Lemma ev_step_stop_finish n ds tc te : ev0 n (fst (step n ds (EStopFinish tc te)
 Proof.
   rewrite step_stop_finish. cbv zeta. set (n0 := set_time n tc (n_io_deadline n)).
   assert (H0 : ev0 n n0) by (apply ev_same; reflexivity).
-  pose proof (ev_close_all (List.map c_id (n_conns n0)) n0 []) as H1.
-  destruct (close_all (List.map c_id (n_conns n0)) n0 []) as [n1 o1]. cbn [fst] in *.
+  pose proof (ev_shutdown_all (List.map c_id (n_conns n0)) n0 []) as H1.
+  destruct (shutdown_all (List.map c_id (n_conns n0)) n0 []) as [n1 o1]. cbn [fst] in *.
   eapply ev_trans; [exact H0|]. eapply ev_trans; [exact H1|]. apply ev_same; reflexivity.
 Qed.
 
@@ -1819,7 +2459,7 @@ Lemma ev_upd_last_read n cid : ev0 n (upd_last_read n cid).
 Proof. unfold upd_last_read. apply ev_upd_keep; [solve_idp|intros x; split; reflexivity]. Qed.
 
 Lemma ev_step_recv n ds cid ms :
-  evolves (PA cid (pnames n) ms) (Qc cid) n (fst (step n ds (ERecv cid ms))).
+  evolves (PA cid (pnames n) ms) (Qc cid) (RA cid (pnames n) ms) n (fst (step n ds (ERecv cid ms))).
 Proof.
   cbn [step]. destruct (get_conn n cid); [|apply ev_refl].
   pose proof (ev_io_iteration n ds) as H1. destruct (io_iteration n ds) as [[n1 o1] ds1]. cbn [fst] in H1.
@@ -1834,40 +2474,40 @@ Qed.
 (* every step: numbers of connections stay below the counter *)
 Definition conns_fresh (n : node) : Prop := forall j c, get_conn n j = Some c -> (j < n_next_cid n)%nat.
 
-Lemma ev_step n ds e : exists P Q, evolves P Q n (fst (step n ds e)).
+Lemma ev_step n ds e : exists P Q R, evolves P Q R n (fst (step n ds e)).
 Proof.
   destruct e.
-  - exists NoP, NoP. apply ev_step_accept.
-  - eexists _, _. apply ev_step_recv.
-  - exists NoP, NoP. apply ev_step_peer_close.
-  - exists NoP, NoP. apply ev_step_read_err.
-  - exists NoP, NoP. apply ev_step_conn_done.
-  - exists NoP, NoP. apply ev_step_stall.
-  - exists NoP, NoP. apply ev_step_tick.
-  - exists NoP, NoP. apply ev_step_app_answer.
-  - exists NoP, NoP. apply ev_step_app_request.
-  - exists NoP, NoP. apply ev_step_stop.
-  - exists NoP, NoP. apply ev_step_stop_finish.
-  - exists NoP, NoP. apply ev_step_start.
+  - exists NoP, NoP, NoP. apply ev_step_accept.
+  - eexists _, _, _. apply ev_step_recv.
+  - exists NoP, NoP, NoP. apply ev_step_peer_close.
+  - exists NoP, NoP, NoP. apply ev_step_read_err.
+  - eexists _, _, _. apply ev_step_conn_done.
+  - exists NoP, NoP, NoP. apply ev_step_stall.
+  - exists NoP, NoP, NoP. apply ev_step_tick.
+  - exists NoP, NoP, NoP. apply ev_step_app_answer.
+  - exists NoP, NoP, NoP. apply ev_step_app_request.
+  - exists NoP, NoP, NoP. apply ev_step_stop.
+  - exists NoP, NoP, NoP. apply ev_step_stop_finish.
+  - exists NoP, NoP, NoP. apply ev_step_start.
 Qed.
 
 (* freshness of connection numbers is an invariant of step (it holds for a node without connections) *)
 Theorem conns_fresh_step n ds e : conns_fresh n -> conns_fresh (fst (step n ds e)).
 Proof.
-  intros Hf j c' Hc'. destruct (ev_step n ds e) as [P [Q [_ [Hn H]]]].
+  intros Hf j c' Hc'. destruct (ev_step n ds e) as [P [Q [R [_ [Hn H]]]]].
   destruct (H j c' Hc') as [Hle|[c [Hc _]]]; [lia|]. apply Hf in Hc. lia.
 Qed.
 
-Lemma ev_at P Q n n' cid c c' :
-  evolves P Q n n' -> (cid < n_next_cid n)%nat -> get_conn n cid = Some c -> get_conn n' cid = Some c' ->
-  crel P Q cid c c'.
+Lemma ev_at P Q R n n' cid c c' :
+  evolves P Q R n n' -> (cid < n_next_cid n)%nat -> get_conn n cid = Some c -> get_conn n' cid = Some c' ->
+  crel P Q R cid c c'.
 Proof.
   intros [_ [_ H]] Hlt Hc Hc'. destruct (H cid c' Hc') as [Hle|[c0 [Hc0 Hr]]]; [lia|].
   rewrite Hc in Hc0. inversion Hc0; subst. exact Hr.
 Qed.
 
-Lemma ev_at_none P Q n n' cid :
-  evolves P Q n n' -> (cid < n_next_cid n)%nat -> get_conn n cid = None -> get_conn n' cid = None.
+Lemma ev_at_none P Q R n n' cid :
+  evolves P Q R n n' -> (cid < n_next_cid n)%nat -> get_conn n cid = None -> get_conn n' cid = None.
 Proof.
   intros [_ [_ H]] Hlt Hc. destruct (get_conn n' cid) as [c'|] eqn:Hc'; [|reflexivity].
   destruct (H cid c' Hc') as [Hle|[c0 [Hc0 Hr]]]; [lia|congruence].
@@ -1893,26 +2533,43 @@ Proof.
   - destruct H as [Hr He]. split; auto.
 Qed.
 
+Lemma cer_ok_good n m : cer_ok (pnames n) m -> is_good_cer n m.
+Proof.
+  intros [Hk [Hr [h [Ho Hin]]]]. split; [exact Hk|]. split; [exact Hr|].
+  exists h. split; [exact Ho|apply in_pnames_get_peer, Hin].
+Qed.
+
+Lemma ready_not_inert s : is_ready_state s = true -> inert s = false.
+Proof. destruct s; cbn; congruence. Qed.
+
+Lemma not_ready_cases s : is_ready_state s = false -> s = SConnected \/ inert s = true.
+Proof. destruct s; cbn; auto; discriminate. Qed.
+
 (* C06, per event kind: no event other than a network read makes a connection ready *)
-Lemma C06_ready_only_by_ce_other n ds e cid c c' :
-  ev0 n (fst (step n ds e)) ->
+Lemma C06_ready_only_by_ce_other (Q R : nat -> Prop) n ds e cid c c' :
+  evolves NoP Q R n (fst (step n ds e)) ->
   (cid < n_next_cid n)%nat -> get_conn n cid = Some c -> is_ready_state (c_state c) = false ->
   get_conn (fst (step n ds e)) cid = Some c' -> is_ready_state (c_state c') = true -> False.
 Proof.
-  intros Hev Hlt Hc Hnr Hc' Hr. destruct (ev_at _ _ _ _ cid c c' Hev Hlt Hc Hc') as [_ [H _]].
+  intros Hev Hlt Hc Hnr Hc' Hr. destruct (ev_at _ _ _ _ _ cid c c' Hev Hlt Hc Hc') as [_ [H _]].
   destruct (H Hr) as [H1|[]]. congruence.
 Qed.
 
-(* C06, network read: the frames contain a CER of a configured peer or a CEA 2001 *)
+(* C06, network read: the frames contain a CER of a configured peer or a CEA 2001; if the connection was
+   neither CONNECTED nor ready, they contain a CER of a configured peer *)
 Lemma C06_ready_only_by_ce_recv n ds cid0 ms cid c c' :
   (cid < n_next_cid n)%nat -> get_conn n cid = Some c -> is_ready_state (c_state c) = false ->
   get_conn (fst (step n ds (ERecv cid0 ms))) cid = Some c' -> is_ready_state (c_state c') = true ->
-  cid0 = cid /\ exists m, List.In m ms /\ (is_good_cer n m \/ is_good_cea m).
+  cid0 = cid /\ (exists m, List.In m ms /\ (is_good_cer n m \/ is_good_cea m)) /\
+  (inert (c_state c) = true -> exists m, List.In m ms /\ is_good_cer n m).
 Proof.
   intros Hlt Hc Hnr Hc' Hr.
-  destruct (ev_at _ _ _ _ cid c c' (ev_step_recv n ds cid0 ms) Hlt Hc Hc') as [_ [H _]].
-  destruct (H Hr) as [H1|[Hj [m [Hin Hm]]]]; [congruence|]. split; [congruence|].
-  exists m. split; [exact Hin|apply ce_any_good, Hm].
+  destruct (ev_at _ _ _ _ _ cid c c' (ev_step_recv n ds cid0 ms) Hlt Hc Hc') as [_ [H [_ H4]]].
+  destruct (H Hr) as [H1|[Hj [m [Hin Hm]]]]; [congruence|]. split; [congruence|]. split.
+  - exists m. split; [exact Hin|apply ce_any_good, Hm].
+  - intros Hi. destruct (H4 Hi) as [Hi'|[_ [m' [Hin' Hm']]]].
+    + rewrite (ready_not_inert _ Hr) in Hi'. discriminate.
+    + exists m'. split; [exact Hin'|apply cer_ok_good, Hm'].
 Qed.
 
 (* C06, network read on a CONNECTED connection: the direction of the CE message matches the connection *)
@@ -1934,12 +2591,12 @@ Proof.
   assert (Hlt2 : (cid < n_next_cid n2)%nat) by (destruct H12 as [_ [Hn _]]; lia).
   assert (Hlt3 : (cid < n_next_cid n3)%nat) by (destruct H3 as [_ [Hn _]]; lia).
   assert (Hnone : get_conn n3 cid = None -> False).
-  { intros Hn3. rewrite (ev_at_none _ _ n3 n4 cid H4 Hlt3 Hn3) in Hc'. discriminate. }
+  { intros Hn3. rewrite (ev_at_none _ _ _ n3 n4 cid H4 Hlt3 Hn3) in Hc'. discriminate. }
   assert (Hdull : forall c3, get_conn n3 cid = Some c3 -> c_state c3 = SConnected \/ c_state c3 = SClosing -> False).
-  { intros c3 Hc3 Hs3. destruct (ev_at _ _ _ _ cid c3 c' H4 Hlt3 Hc3 Hc') as [_ [H _]].
+  { intros c3 Hc3 Hs3. destruct (ev_at _ _ _ _ _ cid c3 c' H4 Hlt3 Hc3 Hc') as [_ [H _]].
     destruct (H Hr) as [Hr3|[]]. destruct Hs3 as [E|E]; rewrite E in Hr3; discriminate. }
   destruct (get_conn n2 cid) as [c2|] eqn:Hc2.
-  - destruct (ev_at _ _ _ _ cid c c2 H12 Hlt Hc Hc2) as [Hb2 [_ Hs2]].
+  - destruct (ev_at _ _ _ _ _ cid c c2 H12 Hlt Hc Hc2) as [Hb2 [_ [Hs2 _]]].
     destruct (Hs2 Hs) as [Hs2'|[]].
     destruct (Hco c2 eq_refl Hs2') as [Hn3|[[c3 [Hc3 Hs3]]|[m [Hin Hm]]]].
     + destruct (Hnone Hn3).
@@ -1951,7 +2608,9 @@ Qed.
 
 (* C06: a connection that was not ready and is ready after a step: the step was a network read on that
    connection whose frames contain a CER of a configured peer or a CEA 2001; if the connection was CONNECTED
-   the message has the direction of the connection (CER on an inbound, CEA on an outbound connection) *)
+   the message has the direction of the connection (CER on an inbound, CEA on an outbound connection); in
+   every other state (CONNECTING, DISCONNECTING, CLOSING, CLOSED) it is a CER of a configured peer: a CEA
+   acts on a CONNECTED connection only *)
 Theorem C06_ready_only_by_ce n ds e cid c c' :
   (cid < n_next_cid n)%nat ->
   get_conn n cid = Some c -> is_ready_state (c_state c) = false ->
@@ -1959,20 +2618,83 @@ Theorem C06_ready_only_by_ce n ds e cid c c' :
   exists ms, e = ERecv cid ms /\
     (exists m, List.In m ms /\ (is_good_cer n m \/ is_good_cea m)) /\
     (c_state c = SConnected ->
-     exists m, List.In m ms /\ if c_recv c then is_good_cer n m else is_good_cea m).
+     exists m, List.In m ms /\ if c_recv c then is_good_cer n m else is_good_cea m) /\
+    (c_state c <> SConnected -> exists m, List.In m ms /\ is_good_cer n m).
 Proof.
   intros Hlt Hc Hnr Hc' Hr.
   destruct e as [h|cid0 ms|k|k hard|k ok|k b|dt|i m|i m realm pick tmo|force|tc te|];
     try (exfalso;
-         match type of Hc' with get_conn (fst (step n ds ?e)) _ = _ => eapply (C06_ready_only_by_ce_other n ds e) end;
+         match type of Hc' with get_conn (fst (step n ds ?e)) _ = _ => eapply (C06_ready_only_by_ce_other _ _ n ds e) end;
          [first [apply ev_step_accept | apply ev_step_peer_close | apply ev_step_read_err
                 | apply ev_step_conn_done | apply ev_step_stall | apply ev_step_tick
                 | apply ev_step_app_answer | apply ev_step_app_request | apply ev_step_stop
                 | apply ev_step_stop_finish | apply ev_step_start]
          |exact Hlt|exact Hc|exact Hnr|exact Hc'|exact Hr]).
-  destruct (C06_ready_only_by_ce_recv n ds cid0 ms cid c c' Hlt Hc Hnr Hc' Hr) as [-> Hm].
-  exists ms. split; [reflexivity|]. split; [exact Hm|]. intros Hs.
-  eapply C06_ready_only_by_ce_recv_connected; eassumption.
+  destruct (C06_ready_only_by_ce_recv n ds cid0 ms cid c c' Hlt Hc Hnr Hc' Hr) as [-> [Hm Hi]].
+  exists ms. split; [reflexivity|]. split; [exact Hm|]. split.
+  - intros Hs. eapply C06_ready_only_by_ce_recv_connected; eassumption.
+  - intros Hs. apply Hi. destruct (not_ready_cases _ Hnr); [contradiction|assumption].
+Qed.
+
+(* C06: the direction of the capabilities exchange.  A connection becomes ready only by (a) a CEA 2001 while
+   it is CONNECTED and outbound, or (b) a CER of a configured peer (which, on a CONNECTED connection, passes
+   the gate only if the connection is inbound) *)
+Theorem C06_direction n ds e cid c c' :
+  (cid < n_next_cid n)%nat ->
+  get_conn n cid = Some c -> is_ready_state (c_state c) = false ->
+  get_conn (fst (step n ds e)) cid = Some c' -> is_ready_state (c_state c') = true ->
+  exists ms, e = ERecv cid ms /\
+    ((c_state c = SConnected /\ c_recv c = false /\ exists m, List.In m ms /\ is_good_cea m) \/
+     ((c_state c = SConnected -> c_recv c = true) /\ exists m, List.In m ms /\ is_good_cer n m)).
+Proof.
+  intros Hlt Hc Hnr Hc' Hr.
+  destruct (C06_ready_only_by_ce n ds e cid c c' Hlt Hc Hnr Hc' Hr) as [ms [He [_ [H1 H2]]]].
+  exists ms. split; [exact He|].
+  destruct (not_ready_cases _ Hnr) as [Hs|Hi].
+  - destruct (H1 Hs) as [m [Hin Hm]]. destruct (c_recv c) eqn:Hb.
+    + right. split; [reflexivity|]. exists m. auto.
+    + left. split; [exact Hs|]. split; [reflexivity|]. exists m. auto.
+  - assert (Hs : c_state c <> SConnected) by (intros E; rewrite E in Hi; discriminate).
+    right. split; [intros E; contradiction|]. apply H2, Hs.
+Qed.
+
+(* C06: an outbound CONNECTED connection becomes ready only by a CEA 2001 *)
+Corollary C06_direction_outbound n ds e cid c c' :
+  (cid < n_next_cid n)%nat ->
+  get_conn n cid = Some c -> c_state c = SConnected -> c_recv c = false ->
+  get_conn (fst (step n ds e)) cid = Some c' -> is_ready_state (c_state c') = true ->
+  exists ms, e = ERecv cid ms /\ exists m, List.In m ms /\ is_good_cea m.
+Proof.
+  intros Hlt Hc Hs Hb Hc' Hr.
+  assert (Hnr : is_ready_state (c_state c) = false) by (rewrite Hs; reflexivity).
+  destruct (C06_direction n ds e cid c c' Hlt Hc Hnr Hc' Hr) as [ms [He [[_ [_ H]]|[H _]]]].
+  - exists ms. auto.
+  - specialize (H Hs). congruence.
+Qed.
+
+(* C06: a CEA never revives a connection: one that is CONNECTING, DISCONNECTING, CLOSING or CLOSED becomes
+   ready only by a CER of a configured peer; a read that holds answers only leaves it not ready *)
+Theorem C06_cea_never_revives n ds e cid c c' :
+  (cid < n_next_cid n)%nat ->
+  get_conn n cid = Some c ->
+  (c_state c = SConnecting \/ c_state c = SDisconnecting \/ c_state c = SClosing \/ c_state c = SClosed) ->
+  get_conn (fst (step n ds e)) cid = Some c' ->
+  (is_ready_state (c_state c') = true ->
+   exists ms, e = ERecv cid ms /\ exists m, List.In m ms /\ is_good_cer n m) /\
+  (forall ms, e = ERecv cid ms -> (forall m, List.In m ms -> m_req m = false) ->
+   is_ready_state (c_state c') = false).
+Proof.
+  intros Hlt Hc Hst Hc'.
+  assert (Hnr : is_ready_state (c_state c) = false) by (destruct Hst as [E|[E|[E|E]]]; rewrite E; reflexivity).
+  assert (Hns : c_state c <> SConnected) by (destruct Hst as [E|[E|[E|E]]]; rewrite E; discriminate).
+  assert (H1 : is_ready_state (c_state c') = true ->
+               exists ms, e = ERecv cid ms /\ exists m, List.In m ms /\ is_good_cer n m).
+  { intros Hr. destruct (C06_ready_only_by_ce n ds e cid c c' Hlt Hc Hnr Hc' Hr) as [ms [He [_ [_ H]]]].
+    exists ms. split; [exact He|apply H, Hns]. }
+  split; [exact H1|]. intros ms He Hans.
+  destruct (is_ready_state (c_state c')) eqn:Hr; [|reflexivity]. exfalso.
+  destruct (H1 eq_refl) as [ms' [He' [m [Hin [_ [Hq _]]]]]]. rewrite He in He'. inversion He'; subst ms'.
+  rewrite (Hans m Hin) in Hq. discriminate.
 Qed.
 
 (* ================================================================================== *)
@@ -2007,6 +2729,7 @@ Definition ex_dwr : msg := ex_msg DW true Absent.
 Example C06_example :
   let n := ex_node 0 (ex_conn true SConnected "") in
   (0 < n_next_cid n)%nat /\
+  election_rivals n 0%nat "p" = [] /\
   option_map c_state (get_conn n 0%nat) = Some SConnected /\
   (exists p, get_peer n "p" = Some p) /\
   inter_z (node_auth n) (m_auth ex_cer) = [4] /\
@@ -2019,15 +2742,69 @@ Example C06_example :
   dispatch n 0%nat ex_dwr = (n, []).
 Proof. vm_compute. repeat split; try reflexivity; try lia. eexists; reflexivity. Qed.
 
-(* C06: the direction claim fails outside CONNECTED: an inbound connection in DISCONNECTING is flagged READY
-   again by a CEA 2001 (the gate passes every command in that state), no CER is involved *)
-Example C06_direction_counterexample :
+(* C06: a CEA acts on a CONNECTED connection only: an inbound connection in DISCONNECTING is left alone by a
+   CEA 2001 (the gate passes it, the handler ignores it); on an outbound CONNECTED connection the CEA 2001 of
+   the dialled peer makes it READY, the CEA 2001 of somebody else closes it (CER_REJECTED) *)
+Definition ex_cea_q : msg :=
+  {| m_cmd := CE; m_req := false; m_p := false; m_e := false; m_t := false; m_app := 0; m_hbh := 7; m_e2e := 8;
+     m_origin := Present "q"; m_drealm := Undeclared; m_result := Present 2001; m_missing := [];
+     m_has_failed_avp_slot := true; m_auth := [4]; m_acct := []; m_tag := 0 |}.
+Example C06_cea_example :
   let n := ex_node 0 (ex_conn true SDisconnecting "p") in
+  let k := ex_node 0 (ex_conn false SConnected "p") in
   option_map c_recv (get_conn n 0%nat) = Some true /\
   option_map c_state (get_conn n 0%nat) = Some SDisconnecting /\
-  option_map c_state (get_conn (fst (step n [] (ERecv 0%nat [ex_cea]))) 0%nat) = Some SReady /\
-  m_req ex_cea = false.
+  recv_cea n 0%nat ex_cea = (n, []) /\
+  option_map c_state (get_conn (fst (step n [] (ERecv 0%nat [ex_cea]))) 0%nat) = Some SDisconnecting /\
+  m_req ex_cea = false /\
+  option_map c_state (get_conn (fst (recv_cea k 0%nat ex_cea)) 0%nat) = Some SReady /\
+  option_map c_state (get_conn (fst (step k [] (ERecv 0%nat [ex_cea]))) 0%nat) = Some SReady /\
+  recv_cea k 0%nat ex_cea_q = close_conn k 0%nat R_CER_REJECTED /\
+  snd (step k [] (ERecv 0%nat [ex_cea_q])) = [OClose 0%nat R_CER_REJECTED] /\
+  get_conn (fst (step k [] (ERecv 0%nat [ex_cea_q]))) 0%nat = None.
 Proof. vm_compute. repeat split; reflexivity. Qed.
+
+(* C06: the election.  Connection 0 was dialled towards "p" and awaits the CEA; "p" connects (connection 1)
+   and sends its CER.  With the local name "n" < "p" the election is lost: 4003, connection 1 is CLOSING,
+   connection 0 is kept.  With the local name "z" > "p" it is won: connection 0 is closed (CLEAN) before the
+   CER is answered 2001, connection 1 is READY *)
+Definition ex_cfg_named (host : string) : cfg :=
+  {| g_host := host; g_realm := "r"; g_cea := 4; g_cer := 4; g_dwa := 4; g_idle := 20; g_wakeup := 6;
+     g_rsize := 10%nat; g_validate := true; g_state_id := 1 |}.
+Definition ex_conn_id (i : nat) (recv : bool) (st : cstate) (name host : string) : conn :=
+  {| c_id := i; c_recv := recv; c_state := st; c_node_name := name; c_host := host; c_last_read := 0;
+     c_last_dwr := 0; c_auth := []; c_acct := []; c_hbh := 100; c_sock_open := true; c_stalled := false;
+     c_out := []; c_workers := true |}.
+Definition ex_node2 (host : string) : node :=
+  {| n_cfg := ex_cfg_named host; n_now := 0; n_io_deadline := 6; n_stopping := false;
+     n_peers := [ex_peer];
+     n_conns := [ex_conn_id 0 false SConnected "p" ""; ex_conn_id 1 true SConnected "" ""];
+     n_next_cid := 2%nat; n_half_ready := [1%nat]; n_socket_peers := [0%nat; 1%nat];
+     n_routes := [("r", [(RApp 0, ["p"])])]; n_apps := [ex_app];
+     n_app_waiting := []; n_peer_waiting := []; n_origin_waiting := []; n_sent_answers := []; n_e2e := 1 |}.
+Example C06_election_example :
+  let n := ex_node2 "n" in
+  let z := ex_node2 "z" in
+  election_rivals n 1%nat "p" = [0%nat] /\
+  (exists p, get_peer n "p" = Some p) /\
+  inter_z (node_auth n) (m_auth ex_cer) = [4] /\
+  String.ltb "p" (g_host (n_cfg n)) = false /\
+  snd (recv_cer n 1%nat ex_cer) = [OQueue 1%nat (answer_of ex_cer (Some 4003) [])] /\
+  option_map c_state (get_conn (fst (recv_cer n 1%nat ex_cer)) 1%nat) = Some SClosing /\
+  option_map c_state (get_conn (fst (recv_cer n 1%nat ex_cer)) 0%nat) = Some SConnected /\
+  snd (step n [] (ERecv 1%nat [ex_cer])) =
+    [OQueue 1%nat (answer_of ex_cer (Some 4003) []); OSend 1%nat (answer_of ex_cer (Some 4003) []);
+     OClose 1%nat R_CLEAN] /\
+  election_rivals z 1%nat "p" = [0%nat] /\
+  String.ltb "p" (g_host (n_cfg z)) = true /\
+  snd (recv_cer z 1%nat ex_cer) = [OClose 0%nat R_CLEAN; OQueue 1%nat (answer_of ex_cer (Some 2001) [])] /\
+  get_conn (fst (recv_cer z 1%nat ex_cer)) 0%nat = None /\
+  option_map c_state (get_conn (fst (recv_cer z 1%nat ex_cer)) 1%nat) = Some SReady /\
+  option_map c_host (get_conn (fst (recv_cer z 1%nat ex_cer)) 1%nat) = Some "p" /\
+  snd (step z [] (ERecv 1%nat [ex_cer])) =
+    [OClose 0%nat R_CLEAN; OQueue 1%nat (answer_of ex_cer (Some 2001) []);
+     OSend 1%nat (answer_of ex_cer (Some 2001) [])].
+Proof. vm_compute. repeat split; try reflexivity. eexists; reflexivity. Qed.
 
 (* C11: an idle READY connection (peer idle timer 10 overrides the node's 20) gets one DWR; a DWA restores READY *)
 Example C11_example :
@@ -2065,16 +2842,27 @@ Proof. vm_compute. repeat split; try reflexivity. repeat constructor. intros [].
 Print Assumptions C06_gate_connected.
 Print Assumptions C06_gate_closing.
 Print Assumptions C06_cer_known.
+Print Assumptions C06_cer_known_no_rivals.
+Print Assumptions C06_cer_election_won.
+Print Assumptions C06_cer_election_lost.
 Print Assumptions C06_cer_unknown.
 Print Assumptions C06_unknown_then_closed.
 Print Assumptions C06_cer_no_common.
+Print Assumptions C06_cer_no_common_no_rivals.
 Print Assumptions C06_ready_only_by_ce_other.
 Print Assumptions C06_ready_only_by_ce_recv.
 Print Assumptions C06_ready_only_by_ce_recv_connected.
 Print Assumptions C06_ready_only_by_ce.
+Print Assumptions C06_direction.
+Print Assumptions C06_direction_outbound.
+Print Assumptions C06_cea_never_revives.
 Print Assumptions conns_fresh_step.
 Print Assumptions C06_outbound_first_is_cer.
+Print Assumptions C06_cea_ignored_unless_connected.
 Print Assumptions C06_cea_rejected.
+Print Assumptions C06_cea_wrong_identity.
+Print Assumptions C06_cea_without_origin.
+Print Assumptions C06_cea_accepted.
 Print Assumptions C06_timeout.
 Print Assumptions check_timers_unfold.
 Print Assumptions C11_idle_sends_one.
@@ -2090,7 +2878,13 @@ Print Assumptions C18_quiet_while_stopping.
 Print Assumptions C18_newcomers_refused.
 Print Assumptions C18_all_closed.
 Print Assumptions C18_close_after_dpa.
+Print Assumptions mclose_all_outs_in.
+Print Assumptions mclose_all_closes.
+Print Assumptions mclose_all_outs_nodup.
+Print Assumptions election_rivals_in.
+Print Assumptions election_rivals_nodup.
 Print Assumptions C06_example.
-Print Assumptions C06_direction_counterexample.
+Print Assumptions C06_cea_example.
+Print Assumptions C06_election_example.
 Print Assumptions C11_example.
 Print Assumptions C18_example.
